@@ -2,12 +2,13 @@
 from __future__ import annotations
 
 import ast
+import re
 
 from ..cfg import CFG
 from ..loops import dotted
 from ..nf import NF, Scope, Poly, parse_expr
 from ..repo import Repo, loc, short, AnalysisError, positional_params, param_names, bind_call
-from ..sem import stmt_calls, on_every_path_once
+from ..sem import stmt_calls, on_every_path_once, recv_canon, arg_of
 from ..sympath import enumerate_paths, PathEval
 
 EXPLANATION = (
@@ -19,7 +20,9 @@ EXPLANATION = (
     "only after save and wait_until_finished on the same path (dominance). Cadence state: the Orbax logger updates last_step[key] on every "
     "path after evaluating the guard, saves at most once per record_epoch, and its guard is the documented wrap-or-gap predicate; the "
     "standard logger increments epoch[key] exactly once before testing epoch % interval == 0. The arithmetic equivalence of the wrap-or-gap "
-    "predicate with `a multiple of the interval was passed` is NOT decided (hand argument in DESIGN.md)."
+    "predicate with `a multiple of the interval was passed` is NOT decided (hand argument in DESIGN.md). A violation is reported only on "
+    "positive evidence (a path witness, a wrong constant, a value built from the documented ingredients but combined differently); a "
+    "construct the rules cannot read is reported as undecided."
 )
 TRUSTED = ["Orbax StandardCheckpointer.save / wait_until_finished", "list.append preserves recording order"]
 RULES = {
@@ -32,15 +35,7 @@ RULES = {
 
 LG = "rl_blox.logging.logger."
 OC = "rl_blox.logging.checkpointer.OrbaxCheckpointer"
-
-
-def _m(repo, cq, name):
-    m = repo.method(cq, name, inherited=False)
-    if m is None:
-        return None
-    fn = m[1]
-    fn._module = repo.cls(cq)._module
-    return fn
+BASE = LG + "LoggerBase"
 
 
 def _mi(repo, cq, name):
@@ -57,381 +52,57 @@ def _public_methods(cls):
     return [n for n in cls.body if isinstance(n, ast.FunctionDef) and not n.name.startswith("_")]
 
 
-def _paths_lits(nf, cfg, mi, site, env, stops=None, max_paths=4000):
-    """[(PathEval after the path, canonical literals of the branches taken)] for every entry -> stop path."""
-    from ..sem import _negate, _flatten_and
+# ---------------------------------------------------------------------------------------------------------------------------
+# evidence discipline: a value that differs from the documented one is a violation only when it is built from the documented ingredients
+# (combined differently, or a constant); anything else is a form the rule cannot read
+_OPS = {"None", "True", "False", "ite", "Is", "IsNot", "not", "or", "and", "Eq", "NotEq", "In", "NotIn", "mod", "self"}
+
+
+def _toks(c) -> set:
+    return set(re.findall(r"[A-Za-z_][A-Za-z_0-9]*", c if isinstance(c, str) else c.canon()))
+
+
+def _built_from(c, allowed, ops=_OPS) -> bool:
+    return _toks(c) <= set(allowed) | set(ops)
+
+
+def _unread(c) -> bool:
+    """The canonical text contains a merge of definitions, an opaque comprehension / lambda or a temporary of the helper expander."""
+    return bool(re.search(r"φ\(|⟦|__i\d", c if isinstance(c, str) else c.canon()))
+
+
+def _self_attr(e, attrs) -> bool:
+    return isinstance(e, ast.Attribute) and e.attr in attrs and isinstance(e.value, ast.Name) and e.value.id == "self"
+
+
+def _mentions(tree, attrs) -> bool:
+    return any(_self_attr(x, attrs) for x in ast.walk(tree))
+
+
+def _alias_value(cfg, nid, e, depth=0):
+    """`x` -> (the expression bound by the only definition of the local x reaching node nid, its node); other expressions unchanged."""
+    while isinstance(e, ast.Name) and depth < 4:
+        ds = cfg.defs_of(nid, e.id)
+        if len(ds) == 1 and ds[0].kind == "assign" and ds[0].value is not None and not ds[0].path:
+            e, nid, depth = ds[0].value, ds[0].node, depth + 1
+        else:
+            break
+    return e, nid
+
+
+def _self_calls(nf, cfg, mi, recv, attr):
+    """(node, call) of `<recv>.<attr>(...)`, the receiver read through local aliases (`cp = self.checkpointer; cp.save(..)`)."""
+    return [(n, c) for n, c in stmt_calls(cfg, lambda c: isinstance(c.func, ast.Attribute) and c.func.attr == attr) if recv_canon(nf, cfg, mi, n, c) == recv]
+
+
+def _opaque_self_calls(nf, cfg, mi, known):
+    """Calls of methods of self (or of objects held by self) that are not in ``known`` [(receiver, attr)]: they may do anything."""
     out = []
-    try:
-        paths = enumerate_paths(cfg, cfg.entry, stops or {cfg.exit}, max_paths=max_paths)
-    except RuntimeError:
-        raise AnalysisError(f"{site}: too many paths for the per-path evaluation")
-    for pth in paths:
-        pe = PathEval(nf, cfg, mi, site, env)
-        lits = []
-        for nid, lab in pth[:-1]:
-            nd = cfg.nodes[nid]
-            if nd.kind == "test" and lab in (True, False) and hasattr(nd.ast, "test") and isinstance(nd.ast, ast.If):
-                c = pe.ev(nd.ast.test).canon()
-                lits += _flatten_and(c) if lab else [_negate(c)]
-            pe.step(nid, lab)
-        out.append((pe, lits, pth))
+    for n, c in stmt_calls(cfg, lambda c: isinstance(c.func, ast.Attribute)):
+        rc = recv_canon(nf, cfg, mi, n, c)
+        if (rc == "self" or rc.startswith("self.") or rc.startswith("super()")) and not any(rc == r or (r.endswith("[") and rc.startswith(r)) for r, a in known if a == c.func.attr):
+            out.append((n, c))
     return out
-
-
-def _fan_out(ck, repo, nf):
-    base = repo.cls(LG + "LoggerBase")
-    ll = repo.cls(LG + "LoggerList")
-    mi = ll._module
-    base_methods = {m.name: m for m in _public_methods(base)}
-    ck.floor("logger-interface-methods", len(base_methods), 7)
-    for name, bm in sorted(base_methods.items()):
-        fn = _m(repo, LG + "LoggerList", name)
-        site = f"{LG}LoggerList.{name}"
-        if fn is None:
-            ck.ob("R1-fan-out", site, "overridden", False, f"LoggerBase.{name}", "LoggerList does not forward this interface method: members never receive it", loc(mi, ll))
-            continue
-        is_prop = any(dotted(d) == "property" for d in fn.decorator_list)
-        cfg = nf.cfg_of(fn)
-        if is_prop:
-            rets = [n for n in cfg.nodes if n.kind == "stmt" and isinstance(n.ast, ast.Return)]
-            vals = {nf.poly(r.ast.value, Scope(cfg, mi, {}, site), r.id).canon() for r in rets}
-            ok = bool(vals) and all(v.startswith("self.loggers[") and v.endswith(f"].{name}") for v in vals)
-            ck.ob("R1-fan-out", site, "property-of-first-member", ok, f"return {sorted(vals)}", "" if ok else "must report the (identical) value of a member", loc(mi, fn))
-            continue
-        params = [p for p in positional_params(fn) if p != "self"]
-        bparams = [p for p in positional_params(bm) if p != "self"]
-        ok = params == bparams
-        ck.ob("R1-fan-out", site, "signature", ok, f"({', '.join(params)})", "" if ok else f"signature differs from LoggerBase.{name}({', '.join(bparams)})", loc(mi, fn))
-        # the member calls: <loop variable over self.loggers>.<name>(...)
-        loops = [n for n in cfg.nodes if n.kind == "for" and isinstance(n.ast.target, ast.Name)]
-        member_loops = [n for n in loops if nf.poly(n.ast.iter, Scope(cfg, mi, {}, site), n.id).canon() == "self.loggers"]
-        partial_loops = [n for n in loops if n not in member_loops and "self.loggers" in nf.poly(n.ast.iter, Scope(cfg, mi, {}, site), n.id).canon()]
-        calls = stmt_calls(cfg, lambda c: isinstance(c.func, ast.Attribute) and c.func.attr == name and isinstance(c.func.value, ast.Name))
-        calls = [(n, c) for n, c in calls if any(c.func.value.id == lp.ast.target.id and lp.id in cfg.enclosing_loops(n.id) for lp in member_loops + partial_loops)]
-        if not calls and not partial_loops:
-            direct = stmt_calls(cfg, lambda c: isinstance(c.func, ast.Attribute) and c.func.attr == name)
-            if direct:
-                raise AnalysisError(f"{site}: members are not reached through a loop over self.loggers (unrecognised idiom)")
-            mentions = any(isinstance(x, ast.Attribute) and x.attr == "loggers" for x in ast.walk(fn)) or any(isinstance(x, ast.Call) and isinstance(x.func, ast.Attribute) and dotted(x.func.value) == "self" for x in ast.walk(fn))
-            if mentions:
-                raise AnalysisError(f"{site}: the members are handled in a way that is not a direct member call (unrecognised idiom)")
-            ck.ob("R1-fan-out", site, "loop-over-all-members", False, "the method never touches self.loggers", "the method does not reach the members", loc(mi, fn))
-            continue
-        full = bool(calls) and all(any(c.func.value.id == lp.ast.target.id and lp.id in cfg.enclosing_loops(n.id) for lp in member_loops) for n, c in calls) and not partial_loops
-        uncond = all(len(cfg.control_deps(n.id)) == 1 for n, c in calls)   # only the loop itself
-        okl = full and uncond and len(calls) == 1 and not cfg.enclosing_loops(member_loops[0].id) if member_loops else False
-        why = ""
-        if not okl:
-            if partial_loops or not full:
-                why = "the loop does not range over all of self.loggers: some members never receive the record"
-            elif not uncond:
-                raise AnalysisError(f"{site}: the member call is conditional (unrecognised idiom)")
-            else:
-                why = "every member must receive the call exactly once"
-        ck.ob("R1-fan-out", site, "loop-over-all-members", okl, f"for {member_loops[0].ast.target.id if member_loops else '?'} in self.loggers: .{name}(...)", why, loc(mi, fn))
-        if not okl:
-            continue
-        n, c = calls[0]
-        try:
-            b = bind_call(bm, c, skip_self=True)
-        except Exception:
-            raise AnalysisError(f"{site}: cannot bind `{short(c, 60)}` to LoggerBase.{name}")
-        sc = Scope(cfg, mi, {p: Poly.atom(p, {p}, {p}) for p in params}, site)
-        # every member receives the call's own arguments: each forwarded value is the parameter itself, with no other definition of that
-        # name reaching the member call (a location resolved before the fan-out replaces the caller's None)
-        got = {}
-        for p in bparams:
-            a_ = b.get(p)
-            if a_ is None or isinstance(a_, list):
-                got[p] = None
-            elif isinstance(a_, ast.Name):
-                ds_ = cfg.defs_of(n.id, a_.id)
-                if a_.id == p and ds_ and all(d_.kind == "param" for d_ in ds_):
-                    got[p] = p
-                elif a_.id == p:
-                    got[p] = f"{p} (reassigned at line(s) {sorted({cfg.nodes[d_.node].lineno for d_ in ds_ if d_.kind != 'param'})})"
-                else:
-                    got[p] = nf.poly(a_, sc, n.id).canon()
-            else:
-                got[p] = nf.poly(a_, sc, n.id).canon()
-        okf = all(got[p] == p for p in bparams)
-        ck.ob("R1-fan-out", site, "forwards-all-arguments", okf, f"{name}({', '.join(f'{p}={got[p]}' for p in bparams)})",
-              "" if okf else f"every member must receive the identical record: each of ({', '.join(bparams)}) forwarded unchanged to the parameter of the same name", loc(mi, c))
-
-
-def _record_get(ck, repo, nf):
-    for cq in (LG + "MemoryLogger", LG + "StandardLogger"):
-        fn = _mi(repo, cq, "record_stat")
-        ck.need(fn is not None, f"{cq}.record_stat not found")
-        mi = fn._module
-        cfg = nf.cfg_of(fn)
-        env = {p: Poly.atom(p, {p}, {p}) for p in positional_params(fn)}
-        site = f"{cq}.record_stat"
-        res = _paths_lits(nf, cfg, mi, site, env)
-        bad_count, bad_tuple, bad_default, forms = [], [], [], set()
-        none = lambda v: {f"Is(None, {v})", f"Is({v}, None)"}
-        for pe, lits, pth in res:
-            vals = [v.canon() for _, k, v in pe.appended if k == "self.stats[key]"]
-            locs = [v for _, k, v in pe.appended if k == "self.stats_loc[key]"]
-            if len(vals) != 1 or len(locs) != 1 or vals[0] != "value":
-                bad_count.append((vals, [l.canon() for l in locs]))
-                continue
-            lt = locs[0]
-            if lt.elems is None or len(lt.elems) != 3:
-                raise AnalysisError(f"{site}: recorded location `{lt.canon()[:80]}` is not a 3-tuple (unrecognised idiom)")
-            e_, s_, t_ = (x.canon() for x in lt.elems)
-            forms.add((e_, s_, t_[:40]))
-            for got, par, attr in ((e_, "episode", "self._n_episodes"), (s_, "step", "self.n_steps")):
-                is_none = any(l in none(par) for l in lits)
-                not_none = any(l in {f"IsNot(None, {par})", f"IsNot({par}, None)", f"not(Is(None, {par}))", f"not(Is({par}, None))"} for l in lits)
-                ite_ok = {f"ite(Is(None, {par}), {attr}, {par})", f"ite(Is({par}, None), {attr}, {par})", f"ite(IsNot(None, {par}), {par}, {attr})", f"ite(IsNot({par}, None), {par}, {attr})"}
-                if got in ite_ok:
-                    continue
-                if is_none and got == attr or not_none and got == par:
-                    continue
-                if got in (par, attr) and (is_none or not_none):
-                    bad_default.append((par, got, "None" if is_none else "given"))
-                elif got in (par, attr) or got.startswith("ite(") or got.startswith("or("):
-                    # the role is right but the defaulting rule is another one (e.g. `x or default` treats 0 as missing)
-                    bad_default.append((par, got, "?"))
-                else:
-                    bad_tuple.append((par, got))
-            if not (t_ == "t" or "start_time" in t_ or "time()" in t_ or t_.startswith("ite(")):
-                bad_tuple.append(("t", t_))
-        ck.ob("R2-record-get", site, "appends-once-per-path", not bad_count, f"{len(res)} paths", "" if not bad_count else f"some path records nothing, twice or another value: {bad_count[:1]}", loc(mi, fn))
-        ck.ob("R2-record-get", site, "location-tuple", not bad_tuple, f"{sorted(forms)[:3]}", "" if not bad_tuple else f"the location must be (episode, step, time) in this order; got {bad_tuple[:2]}", loc(mi, fn))
-        ck.ob("R2-record-get", site, "defaults", not bad_default, "episode <- _n_episodes, step <- n_steps exactly when omitted (None)", "" if not bad_default else f"an explicitly given episode / step (including 0) must be recorded as given, an omitted one must default to the logger's counter: {bad_default[:2]}", loc(mi, fn))
-        # get_stat: the x-axis value of a record is the element of the location tuple named by x_key, in recording order
-        g = _mi(repo, cq, "get_stat")
-        gcfg = nf.cfg_of(g)
-        keys = [n for n in ast.walk(g) if isinstance(n, (ast.List, ast.Tuple)) and len(n.elts) == 3 and all(isinstance(e, ast.Constant) and isinstance(e.value, str) for e in n.elts)]
-        if not keys:
-            raise AnalysisError(f"{cq}.get_stat: table of x keys not found (unrecognised idiom)")
-        order = [e.value for e in keys[0].elts]
-        oko = order[:2] == ["episode", "step"] and order[2] in ("time", "t")
-        ck.ob("R2-record-get", f"{cq}.get_stat", "key-table-matches-tuple-order", oko, f"x keys {order} index the recorded (episode, step, t)", "" if oko else "get_stat must index the location tuple in the order it was recorded", loc(g._module, keys[0]))
-        # the selection reads self.stats_loc[key] element-wise with that index and self.stats[key] unchanged
-        src = ast.unparse(g)
-        if "self.stats_loc[key]" not in src or "self.stats[key]" not in src:
-            raise AnalysisError(f"{cq}.get_stat: recorded containers are not read directly (unrecognised idiom)")
-
-
-def _counters(ck, repo, nf):
-    loggers = [LG + x for x in ("StandardLogger", "MemoryLogger", "StdoutLogger", "AIMLogger")] + [OC]
-    for cq in loggers:
-        cls = repo.cls(cq)
-        mi = cls._module
-        for meth in cls.body:
-            if not isinstance(meth, ast.FunctionDef):
-                continue
-            meth._module = mi
-            for n in ast.walk(meth):
-                if isinstance(n, (ast.Assign, ast.AugAssign)):
-                    t = n.targets[0] if isinstance(n, ast.Assign) else n.target
-                    d = dotted(t)
-                    if d not in ("self._n_episodes", "self.n_steps"):
-                        continue
-                    sc = Scope(None, mi, {}, cq)
-                    newv = nf.poly(n.value, sc, None) if isinstance(n, ast.Assign) else nf._binop_polys(Poly.atom(d, {d}, {d}), nf.poly(n.value, sc, None), n.op)
-                    nv = newv.canon()
-                    if d == "self._n_episodes":
-                        ok = (meth.name == "__init__" and nv == "0") or (meth.name == "start_new_episode" and nv == "1 + self._n_episodes")
-                        ck.ob("R3-counters", f"{cq}.{meth.name}", "writes:_n_episodes", ok, f"_n_episodes' = {nv}", "" if ok else "the episode counter may only be advanced by one in start_new_episode", loc(mi, n))
-                    else:
-                        tp = [p for p in positional_params(meth) if p != "self"]
-                        ok = (meth.name == "__init__" and nv == "0") or (meth.name == "stop_episode" and tp and nv == nf.poly(parse_expr(f"self.n_steps + {tp[0]}"), sc, None).canon())
-                        ck.ob("R3-counters", f"{cq}.{meth.name}", "writes:n_steps", ok, f"n_steps' = {nv}", "" if ok else "the step counter may only be advanced by the episode's step count in stop_episode", loc(mi, n))
-        for meth, attr in (("start_new_episode", "self._n_episodes"), ("stop_episode", "self.n_steps")):
-            fn = _m(repo, cq, meth)
-            ck.need(fn is not None, f"{cq}.{meth} not found")
-            cfg = nf.cfg_of(fn)
-            ws = [n for n in cfg.nodes if n.kind == "stmt" and isinstance(n.ast, (ast.Assign, ast.AugAssign)) and dotted(n.ast.targets[0] if isinstance(n.ast, ast.Assign) else n.ast.target) == attr]
-            ok = len(ws) == 1 and on_every_path_once(cfg, [ws[0].id])
-            ck.ob("R3-counters", f"{cq}.{meth}", "advances-counter", ok, f"{[short(n.ast) for n in ws]}", "" if ok else f"must advance {attr} exactly once on every path", loc(fn._module, fn))
-
-
-def _instance_state(ck, repo):
-    """Records live in per-instance containers: a mutable container that the methods grow / index through `self` must be created for
-    each instance (bound in a method, normally __init__).  A dict / list literal bound only in the class body is one object shared by
-    every instance, so one logger would return what another recorded."""
-    n = 0
-    for cq in [LG + x for x in ("StandardLogger", "MemoryLogger", "StdoutLogger", "AIMLogger", "LoggerList")] + [OC]:
-        cls = repo.cls(cq)
-        mi = cls._module
-        chain = [repo.cls(c) for c in repo.mro(cq) if c.startswith(repo.PKG)]
-        class_level = {}
-        bound_in_method, mutated = set(), {}
-        for c in chain:
-            for st in c.body:
-                if isinstance(st, (ast.Assign, ast.AnnAssign)):
-                    tg = st.targets[0] if isinstance(st, ast.Assign) else st.target
-                    v = st.value
-                    if isinstance(tg, ast.Name) and isinstance(v, (ast.Dict, ast.List, ast.Set)) or (isinstance(tg, ast.Name) and isinstance(v, ast.Call) and isinstance(v.func, ast.Name) and v.func.id in ("dict", "list", "set", "defaultdict", "deque")):
-                        class_level[tg.id] = st
-                if isinstance(st, ast.FunctionDef):
-                    for x in ast.walk(st):
-                        if isinstance(x, (ast.Assign, ast.AnnAssign, ast.AugAssign)):
-                            for t in (x.targets if isinstance(x, ast.Assign) else [x.target]):
-                                if isinstance(t, ast.Attribute) and dotted(t.value) == "self":
-                                    bound_in_method.add(t.attr)
-                                if isinstance(t, ast.Subscript) and isinstance(t.value, ast.Attribute) and dotted(t.value.value) == "self":
-                                    mutated.setdefault(t.value.attr, x)
-                        if isinstance(x, ast.Call) and isinstance(x.func, ast.Attribute) and x.func.attr in ("append", "extend", "update", "setdefault", "add", "insert", "pop", "clear"):
-                            r = x.func.value
-                            while isinstance(r, ast.Subscript):
-                                r = r.value
-                            if isinstance(r, ast.Attribute) and dotted(r.value) == "self":
-                                mutated.setdefault(r.attr, x)
-        for attr, st in sorted(class_level.items()):
-            if attr in mutated:
-                n += 1
-                ok = attr in bound_in_method
-                ck.ob("R2-record-get", cq, f"per-instance:{attr}", ok, f"`{short(st, 60)}` in the class body; mutated by `{short(mutated[attr], 50)}`",
-                      "" if ok else f"`{attr}` is one container shared by all instances of the class (bound only in the class body) and is mutated through self: records of different loggers end up in the same container", loc(mi, st))
-    ck.count("class-level-mutable-containers", n)
-
-
-def _save_then_list(ck, repo, nf):
-    fn = _mi(repo, LG + "StandardLogger", "_save_checkpoint")
-    mi = fn._module
-    cfg = nf.cfg_of(fn)
-    site = LG + "StandardLogger._save_checkpoint"
-    save = stmt_calls(cfg, lambda c: isinstance(c.func, ast.Attribute) and c.func.attr == "save" and dotted(c.func.value) == "self.checkpointer")
-    wait = stmt_calls(cfg, lambda c: isinstance(c.func, ast.Attribute) and c.func.attr == "wait_until_finished" and dotted(c.func.value) == "self.checkpointer")
-    app = stmt_calls(cfg, lambda c: isinstance(c.func, ast.Attribute) and c.func.attr == "append" and "checkpoint_path" in ast.unparse(c.func.value))
-    ck.need(len(save) == 1 and len(app) == 1, f"{site}: save / listing not found (unrecognised idiom)")
-    ok = len(wait) >= 1 and cfg.dominates(save[0][0].id, wait[0][0].id) and cfg.dominates(wait[0][0].id, app[0][0].id)
-    ck.ob("R4-save-before-list", site, "save-wait-append", ok, " -> ".join(short(c, 50) for _, c in save + wait + app), "" if ok else "a path may be listed only after it was saved and the write finished", loc(mi, fn))
-    sc = Scope(cfg, mi, {}, "s")
-    p_save = nf.poly(save[0][1].args[0], sc, save[0][0].id).canon()
-    p_app = nf.poly(app[0][1].args[0], sc, app[0][0].id).canon()
-    ck.ob("R4-save-before-list", site, "same-path", p_save == p_app, f"saved {p_save[:60]} ; listed {p_app[:60]}", "" if p_save == p_app else "the listed path is not the one that was written", loc(mi, fn))
-    fn = _mi(repo, OC, "_save_checkpoint")
-    cfg = nf.cfg_of(fn)
-    site = OC + "._save_checkpoint"
-    save = stmt_calls(cfg, lambda c: isinstance(c.func, ast.Attribute) and c.func.attr == "save_model" and dotted(c.func.value) == "self")
-    app = stmt_calls(cfg, lambda c: isinstance(c.func, ast.Attribute) and c.func.attr == "append" and "checkpoint_path" in ast.unparse(c.func.value))
-    ck.need(len(save) == 1 and len(app) == 1, f"{site}: save / listing not found (unrecognised idiom)")
-    sc = Scope(cfg, fn._module, {}, "s")
-    sm = repo.method(OC, "save_model")[1]
-    bs = bind_call(sm, save[0][1], skip_self=True)
-    p_save = nf.poly(bs[positional_params(sm)[1]], sc, save[0][0].id).canon()
-    p_app = nf.poly(app[0][1].args[0], sc, app[0][0].id).canon()
-    ok = cfg.dominates(save[0][0].id, app[0][0].id) and p_save == p_app
-    ck.ob("R4-save-before-list", site, "save-then-append", ok, f"save_model({p_save[:50]}) -> append({p_app[:50]})", "" if ok else "the path must be saved before it is listed, and be the same path", loc(fn._module, fn))
-
-
-def _save_model_waits(ck, repo, nf):
-    fn = _mi(repo, OC, "save_model")
-    cfg = nf.cfg_of(fn)
-    save = stmt_calls(cfg, lambda c: isinstance(c.func, ast.Attribute) and c.func.attr == "save" and dotted(c.func.value) == "self.checkpointer")
-    wait = stmt_calls(cfg, lambda c: isinstance(c.func, ast.Attribute) and c.func.attr == "wait_until_finished" and dotted(c.func.value) == "self.checkpointer")
-    ck.need(len(save) == 1, f"{OC}.save_model: expected one self.checkpointer.save call")
-    ok = len(wait) >= 1 and all(cfg.dominates(save[0][0].id, w.id) for w, _ in wait) and cfg.paths_avoiding(save[0][0].id, cfg.exit, {w.id for w, _ in wait}) is None
-    ck.ob("R4-save-before-list", OC + ".save_model", "save-and-wait", ok, "save ; wait_until_finished on every path", "" if ok else "the write must be awaited before save_model returns: the caller lists the path right afterwards", loc(fn._module, fn))
-
-
-def _cadence(ck, repo, nf):
-    from ..sem import bool_equiv
-    fn = _mi(repo, OC, "record_epoch")
-    mi = fn._module
-    cfg = nf.cfg_of(fn)
-    site = OC + ".record_epoch"
-    saves = stmt_calls(cfg, lambda c: isinstance(c.func, ast.Attribute) and c.func.attr == "_save_checkpoint" and dotted(c.func.value) == "self")
-    ck.need(len(saves) >= 1, f"{site}: no checkpoint call (anchor vanished)")
-    ok1 = len(saves) == 1 and not cfg.enclosing_loops(saves[0][0].id)
-    ck.ob("R5-cadence", site, "one-save-per-record", ok1, f"{len(saves)} save call(s)", "" if ok1 else "at most one checkpoint may be written per record", loc(mi, fn))
-    if not ok1:
-        return
-    sn, scall = saves[0]
-    # the condition under which the save runs: conjunction of its (syntactic + dominating) branch conditions, as one boolean expression
-    conds = []
-    for b, lab in cfg.control_deps(sn.id):
-        bn = cfg.nodes[b]
-        if bn.kind == "test" and isinstance(bn.ast, ast.If):
-            conds.append(bn.ast.test if lab else ast.UnaryOp(op=ast.Not(), operand=bn.ast.test))
-    syntactic = {b for b, _ in cfg.control_deps(sn.id)}
-    for bn in cfg.nodes:
-        if bn.kind == "test" and isinstance(bn.ast, ast.If) and bn.id not in syntactic and cfg.dominates(bn.id, sn.id):
-            reach = {lab: cfg.paths_avoiding(bn.id, sn.id, set(), feasible=False, first_label=lab) is not None for lab in (True, False)}
-            if reach[True] != reach[False]:
-                conds.append(bn.ast.test if reach[True] else ast.UnaryOp(op=ast.Not(), operand=bn.ast.test))
-    # conditions about verbosity / None-defaults are not part of the cadence
-    conds = [c for c in conds if "verbose" not in ast.unparse(c) and " is None" not in ast.unparse(c) and " is not None" not in ast.unparse(c)]
-    if not conds:
-        ck.ob("R5-cadence", site, "wrap-or-gap-predicate", False, "the save is unconditional", "a checkpoint is written on every record, not once per crossed interval", loc(mi, scall))
-        return
-    got = conds[0] if len(conds) == 1 else ast.BoolOp(op=ast.And(), values=conds)
-    want = parse_expr("(key in self.checkpoint_frequencies) and ((self.last_step[key] % self.checkpoint_frequencies[key] > step % self.checkpoint_frequencies[key]) or (step - self.last_step[key] >= self.checkpoint_frequencies[key]))")
-    ast.fix_missing_locations(got)
-    eq = bool_equiv(nf, mi, got, want, cfg1=cfg, at1=sn.id, opaque1=set(positional_params(fn)))
-    if eq is None:
-        raise AnalysisError(f"{site}: the condition of the checkpoint `{short(got, 120)}` is built from other comparisons than the documented wrap-or-gap test: equivalence not decidable here")
-    ck.ob("R5-cadence", site, "wrap-or-gap-predicate", eq, f"save iff {short(got, 150)}", "" if eq else f"documented predicate: registered key and (last % f > step % f or step - last >= f); the truth tables differ", loc(mi, scall))
-    # last_step[key] = step on every path, after the guard read the previous value
-    upd = [n for n in cfg.nodes if n.kind == "stmt" and isinstance(n.ast, ast.Assign) and isinstance(n.ast.targets[0], ast.Subscript) and dotted(n.ast.targets[0].value) == "self.last_step"]
-    reads = [n for n in cfg.nodes if n.kind == "test" and "self.last_step" in ast.unparse(n.ast.test)] + [n for n in cfg.nodes if n.kind == "stmt" and n not in upd and n.ast is not None and "self.last_step" in ast.unparse(n.ast)]
-    usc = Scope(cfg, mi, {}, site)
-    usc.opaque_names = set(positional_params(fn))
-    ok = len(upd) == 1 and nf.poly(upd[0].ast.value, usc, upd[0].id).canon() in ("step", "ite(Is(None, step), self.n_steps, step)", "ite(Is(step, None), self.n_steps, step)") \
-        and cfg.paths_avoiding(cfg.entry, cfg.exit, {upd[0].id}) is None and all(cfg.paths_avoiding(upd[0].id, r.id, set()) is None for r in reads)
-    if len(upd) == 1 and not ok:
-        v = nf.poly(upd[0].ast.value, Scope(cfg, mi, {}, site), upd[0].id).canon()
-        if "step" not in v and "n_steps" not in v:
-            raise AnalysisError(f"{site}: last_step[key] is set to `{v}` (unrecognised idiom)")
-    ck.ob("R5-cadence", site, "last-step-updated-after-guard", ok, f"{[short(n.ast) for n in upd]}", "" if ok else "last_step[key] must be set to step on every path, after the test read the previous value (otherwise crossings are missed or counted again)", loc(mi, fn))
-    fn2 = _mi(repo, OC, "define_checkpoint_frequency")
-    pe = PathEval(nf, nf.cfg_of(fn2), fn2._module, "dcf", {p: Poly.atom(p, {p}, {p}) for p in positional_params(fn2)})
-    for nid, lab in enumerate_paths(nf.cfg_of(fn2), nf.cfg_of(fn2).entry, {nf.cfg_of(fn2).exit})[0][:-1]:
-        pe.step(nid, lab)
-    st = {k: v.canon() for k, v in pe.store.items()}
-    ip = [p for p in positional_params(fn2) if p not in ("self", "key")][0]
-    ok = st.get("self.checkpoint_frequencies[key]") == ip and st.get("self.last_step[key]") == "0" and st.get("self.checkpoint_path[key]") in ("()", "[]", "list()")
-    ck.ob("R5-cadence", OC + ".define_checkpoint_frequency", "initial-state", ok, f"{ {k: v for k, v in st.items() if '[key]' in k} }", "" if ok else "registration must initialise interval, an empty path list and last step 0", loc(fn2._module, fn2))
-    # StandardLogger: the counter is advanced exactly once per record, the checkpoint is written iff the key is registered and the
-    # advanced counter is a multiple of the interval
-    fn = _mi(repo, LG + "StandardLogger", "record_epoch")
-    mi = fn._module
-    cfg = nf.cfg_of(fn)
-    site = LG + "StandardLogger.record_epoch"
-    env = {p: Poly.atom(p, {p}, {p}) for p in positional_params(fn)}
-    res = _paths_lits(nf, cfg, mi, site, env)
-    EP = "self.epoch[key]"
-    F = "self.checkpoint_frequencies[key]"
-    reg = {"In(key, self.checkpoint_frequencies)"}
-    due = {f"Eq(0, mod(1 + {EP}, {F}))", f"not(mod(1 + {EP}, {F}))"}
-    not_due = {f"NotEq(0, mod(1 + {EP}, {F}))", f"mod(1 + {EP}, {F})"}
-    bad_inc, bad_save = [], []
-    for pe, lits, pth in res:
-        newc = pe.store.get(EP)
-        first = any(l in ("NotIn(key, self.epoch)", "not(In(key, self.epoch))") for l in lits)
-        want_c = "1" if first else f"1 + {EP}"
-        if newc is None or newc.canon() != want_c:
-            bad_inc.append((newc.canon() if newc is not None else None, want_c))
-        n_saves = sum(1 for nid, lab in pth if cfg.nodes[nid].kind == "stmt" and cfg.nodes[nid].ast is not None and any(isinstance(c, ast.Call) and isinstance(c.func, ast.Attribute) and c.func.attr == "_save_checkpoint" for c in ast.walk(cfg.nodes[nid].ast)))
-        is_reg = any(l in reg for l in lits)
-        is_unreg = any(l in {"NotIn(key, self.checkpoint_frequencies)", "not(In(key, self.checkpoint_frequencies))"} for l in lits)
-        dl = {l.replace("mod(1, ", f"mod(1 + {EP}, ") if first else l for l in lits}
-        is_due = any(l in due for l in dl)
-        is_not_due = any(l in not_due for l in dl)
-        if n_saves > 1:
-            bad_save.append(("twice", lits))
-        elif n_saves == 1 and not (is_reg and is_due):
-            if is_reg or is_due or not any("mod(" in l for l in lits):
-                bad_save.append(("saved although not (registered and due)", [l for l in lits if "mod(" in l or "checkpoint_frequencies" in l]))
-            else:
-                raise AnalysisError(f"{site}: checkpoint written under {[l for l in lits if 'mod(' in l or 'checkpoint' in l]} (unrecognised idiom)")
-        elif n_saves == 0 and is_reg and is_due:
-            bad_save.append(("not saved although registered and due", []))
-    ck.ob("R5-cadence", site, "count-then-test", not bad_inc, "epoch[key] advances by one on every path", "" if not bad_inc else f"every recorded epoch increments the counter exactly once: {bad_inc[:2]}", loc(mi, fn))
-    ck.ob("R5-cadence", site, "every-interval-th-epoch", not bad_save, "checkpoint iff key registered and the advanced epoch counter is a multiple of the interval", "" if not bad_save else f"{bad_save[:2]}", loc(mi, fn))
-
-
-def run(ck, repo: Repo, tier: str):
-    nf = NF(repo, inline_depth=1, inline_calls=False)
-    for group in (_fan_out, _record_get, _counters, _save_then_list, _save_model_waits, _cadence):
-        ck.guard(group, ck, repo, nf)
-    ck.guard(_instance_state, ck, repo)
 
 
 def _split_top(s):
@@ -449,6 +120,878 @@ def _split_top(s):
     if cur.strip():
         out.append(cur.strip())
     return out
+
+
+def _literals(c: str, truth: bool) -> list:
+    """The atomic literals that hold when the canonical boolean text ``c`` has the value ``truth``: and(..) is split when true, or(..)
+    when false (De Morgan), not(..) flips; anything else is one literal (negated with the orientation rules of the engine)."""
+    from ..sem import _negate
+
+    def call(name):
+        if not (c.startswith(name + "(") and c.endswith(")")):
+            return None
+        depth = 0
+        for i, ch in enumerate(c):
+            depth += ch == "("
+            depth -= ch == ")"
+            if depth == 0 and ch == ")" and i != len(c) - 1:
+                return None      # the closing bracket of `name(` is not the last character
+        return c[len(name) + 1:-1]
+    if call("not") is not None:
+        return _literals(call("not"), not truth)
+    if truth and call("and") is not None:
+        return [l for a in _split_top(call("and")) for l in _literals(a, True)]
+    if not truth and call("or") is not None:
+        return [l for a in _split_top(call("or")) for l in _literals(a, False)]
+    return [c] if truth else [_negate(c)]
+
+
+_COMPOUND = ("or(", "and(", "not(or(", "not(and(", "ite(")
+
+
+def _paths_lits(nf, cfg, mi, site, env, stops=None, max_paths=4000, before=None):
+    """[(PathEval after the path, canonical literals of the branches taken, path)] for every entry -> stop path.
+    ``before(pe, node id)`` is called before a node is evaluated (state in which the node's expressions are read)."""
+    out = []
+    try:
+        paths = enumerate_paths(cfg, cfg.entry, stops or {cfg.exit}, max_paths=max_paths)
+    except RuntimeError:
+        raise AnalysisError(f"{site}: too many paths for the per-path evaluation")
+    for pth in paths:
+        pe = PathEval(nf, cfg, mi, site, env)
+        pe.grown = []
+        lits = []
+        for nid, lab in pth[:-1]:
+            nd = cfg.nodes[nid]
+            if nd.kind == "test" and lab in (True, False) and hasattr(nd.ast, "test") and isinstance(nd.ast, ast.If):
+                lits += _literals(pe.ev(nd.ast.test).canon(), lab)
+            if before is not None:
+                before(pe, nid)
+            pe.step(nid, lab)
+        out.append((pe, lits, pth))
+    return out
+
+
+# ---------------------------------------------------------------------------------------------------------------------------
+def _members_iter(nf, cfg, mi, site, n):
+    """What a loop ranges over: 'all' (self.loggers, possibly re-packed by list / tuple / iter / copy / [:]), 'part' (a proper slice
+    of self.loggers), None (something else).  A form that involves the members in another way is undecided."""
+    if nf.poly(n.ast.iter, Scope(cfg, mi, {}, site), n.id).canon() == "self.loggers":
+        return "all"
+    e, at = _alias_value(cfg, n.id, n.ast.iter)
+    part = False
+    for _ in range(6):
+        if isinstance(e, ast.Call) and isinstance(e.func, ast.Name) and e.func.id in ("list", "tuple", "iter") and len(e.args) == 1 and not e.keywords and not isinstance(e.args[0], ast.Starred):
+            e, at = _alias_value(cfg, at, e.args[0])
+        elif isinstance(e, ast.Call) and isinstance(e.func, ast.Attribute) and e.func.attr == "copy" and not e.args and not e.keywords:
+            e, at = _alias_value(cfg, at, e.func.value)
+        elif isinstance(e, ast.Subscript) and isinstance(e.slice, ast.Slice):
+            zero_or_none = lambda b, z: b is None or (isinstance(b, ast.Constant) and b.value == z and type(b.value) is int)
+            if not (zero_or_none(e.slice.lower, 0) and e.slice.upper is None and zero_or_none(e.slice.step, 1)):
+                part = True
+            e, at = _alias_value(cfg, at, e.value)
+        else:
+            break
+    if _self_attr(e, ("loggers",)):
+        return "part" if part else "all"
+    if _mentions(n.ast.iter, ("loggers",)) or _mentions(e, ("loggers",)):
+        raise AnalysisError(f"{site}: loop over `{short(n.ast.iter, 60)}` involves the members in a way that is not read (unrecognised form)")
+    return None
+
+
+def _signature_compatible(fn, bm, site):
+    """None when every call that LoggerBase.<m> accepts binds the same way in the override, else the reason.  Undecided for * / **."""
+    a, b = fn.args, bm.args
+    if a.vararg or a.kwarg or b.vararg or b.kwarg:
+        raise AnalysisError(f"{site}: variadic signature (unrecognised form)")
+    pos, bpos = [x.arg for x in a.posonlyargs + a.args][1:], [x.arg for x in b.posonlyargs + b.args][1:]
+    if pos[:len(bpos)] != bpos:
+        return f"positional parameters ({', '.join(pos)}) differ from LoggerBase.{bm.name}({', '.join(bpos)})"
+    n_required = len(a.posonlyargs + a.args) - len(a.defaults) - 1
+    if n_required > len(bpos):
+        return f"additional required parameter {pos[len(bpos):n_required]}"
+    kwo, bkwo = {x.arg: d for x, d in zip(a.kwonlyargs, a.kw_defaults)}, [x.arg for x in b.kwonlyargs]
+    if any(k not in kwo for k in bkwo):
+        return f"keyword-only parameter(s) {[k for k in bkwo if k not in kwo]} of LoggerBase.{bm.name} missing"
+    if any(d is None for k, d in kwo.items() if k not in bkwo):
+        return f"additional required keyword-only parameter(s) {[k for k, d in kwo.items() if k not in bkwo and d is None]}"
+    return None
+
+
+def _fan_out(ck, repo, nf):
+    base = repo.cls(BASE)
+    ll = repo.cls(LG + "LoggerList")
+    base_methods = {m.name: m for m in _public_methods(base)}
+    ck.floor("logger-interface-methods", len(base_methods), 7)
+    spec = {(q, p) for q, p, _ in getattr(repo, "specialised", None) or []}
+    for name, bm in sorted(base_methods.items()):
+        m = repo.method(LG + "LoggerList", name)   # own, or inherited from a mixin between LoggerList and the interface
+        site = f"{LG}LoggerList.{name}"
+        if m is None or m[0] == BASE:
+            ck.ob("R1-fan-out", site, "overridden", False, f"LoggerBase.{name}", "LoggerList does not forward this interface method: members never receive it", loc(ll._module, ll))
+            continue
+        fn = m[1]
+        mi = fn._module = repo.cls(m[0])._module
+        is_prop = any(dotted(d) == "property" for d in fn.decorator_list)
+        cfg = nf.cfg_of(fn)
+        if is_prop:
+            rets = [n for n in cfg.nodes if n.kind == "stmt" and isinstance(n.ast, ast.Return) and n.ast.value is not None]
+            vals = sorted({nf.poly(r.ast.value, Scope(cfg, mi, {}, site), r.id).canon() for r in rets})
+            good = [v for v in vals if v.startswith("self.loggers[") and v.endswith(f"].{name}") and ":" not in v]
+            ok = bool(vals) and len(good) == len(vals)
+            if not ok and (not vals or not all(v in good or _built_from(v, ()) for v in vals)):     # evidence: a value that involves no member at all (a constant)
+                raise AnalysisError(f"{site}: the reported value `{vals[:2]}` is not read (unrecognised form)")
+            ck.ob("R1-fan-out", site, "property-of-first-member", ok, f"return {vals}", "" if ok else "must report the (identical) value of a member", loc(mi, fn))
+            continue
+        why = _signature_compatible(fn, bm, site)
+        params = [p for p in param_names(fn) if p != "self"]
+        # (an option added after the recorded signatures is read at its default by the specialise pass: its name is a constant in the body)
+        bparams = [p for p in param_names(bm) if p != "self" and (f"{BASE}.{name}", p) not in spec]
+        ck.ob("R1-fan-out", site, "signature", why is None, f"({', '.join(params)})", why or "", loc(mi, fn))
+        if why is not None:
+            continue
+        # the member calls: <loop variable over self.loggers>.<name>(...)
+        loops = [n for n in cfg.nodes if n.kind == "for"]
+        kinds = {n.id: _members_iter(nf, cfg, mi, site, n) for n in loops}
+        if any(kinds[n.id] and not isinstance(n.ast.target, ast.Name) for n in loops):
+            raise AnalysisError(f"{site}: the loop over the members unpacks its items (unrecognised form)")
+        mloops = [n for n in loops if kinds[n.id]]
+        calls = stmt_calls(cfg, lambda c: isinstance(c.func, ast.Attribute) and c.func.attr == name and isinstance(c.func.value, ast.Name))
+        in_loop = lambda n, c, lp: c.func.value.id == lp.ast.target.id and lp.id in cfg.enclosing_loops(n.id)
+        calls_all = [(n, c) for n, c in calls if any(in_loop(n, c, lp) for lp in mloops if kinds[lp.id] == "all")]
+        calls_part = [(n, c) for n, c in calls if any(in_loop(n, c, lp) for lp in mloops if kinds[lp.id] == "part")]
+        if not calls_all and not calls_part:
+            if any(isinstance(x, (ast.Call, ast.For, ast.While, ast.ListComp, ast.GeneratorExp, ast.Lambda)) for x in ast.walk(fn)) or _mentions(fn, ("loggers",)):
+                raise AnalysisError(f"{site}: members are not reached through a loop over self.loggers (unrecognised idiom)")
+            ck.ob("R1-fan-out", site, "loop-over-all-members", False, "the method calls nothing", "the method does not reach the members", loc(mi, fn))
+            continue
+        if calls_part and calls_all:
+            raise AnalysisError(f"{site}: members are called from several loops (unrecognised idiom)")
+        lp = next(l for l in mloops if in_loop(*(calls_all + calls_part)[0], l))
+        shown = f"for {lp.ast.target.id} in {short(lp.ast.iter, 40)}: .{name}(...)"
+        if calls_part:
+            ck.ob("R1-fan-out", site, "loop-over-all-members", False, shown, "the loop does not range over all of self.loggers: some members never receive the record", loc(mi, fn))
+            continue
+        if any(len(cfg.control_deps(n.id)) != 1 for n, c in calls_all) or cfg.control_deps(lp.id):
+            raise AnalysisError(f"{site}: the member call is conditional or nested (unrecognised idiom)")
+        okl = len(calls_all) == 1    # several unconditional calls in loops over all members: a member receives the record more than once
+        ck.ob("R1-fan-out", site, "loop-over-all-members", okl, shown, "" if okl else "every member must receive the call exactly once", loc(mi, fn))
+        if not okl:
+            continue
+        n, c = calls_all[0]
+        if any(isinstance(a_, ast.Starred) for a_ in c.args) or any(k.arg is None for k in c.keywords):
+            raise AnalysisError(f"{site}: `{short(c, 60)}` forwards packed arguments (unrecognised form)")
+        try:
+            b = bind_call(bm, c, skip_self=True)
+        except Exception:
+            raise AnalysisError(f"{site}: cannot bind `{short(c, 60)}` to LoggerBase.{name}")
+        sc = Scope(cfg, mi, {p: Poly.atom(p, {p}, {p}) for p in params}, site)
+        # every member receives the call's own arguments: each forwarded value is the parameter itself, with no other definition of that
+        # name reaching the member call (a location resolved before the fan-out replaces the caller's None)
+        got, unread = {}, []
+        for p in bparams:
+            a_ = b.get(p)
+            if a_ is None or isinstance(a_, list):
+                got[p] = "<not passed>"
+                continue
+            v = nf.poly(a_, sc, n.id).canon()
+            ds_ = cfg.defs_of(n.id, a_.id) if isinstance(a_, ast.Name) else []
+            if v == p:
+                got[p] = p
+            elif isinstance(a_, ast.Name) and a_.id == p and any(d_.kind != "param" for d_ in ds_):
+                got[p] = f"{p} (reassigned at line(s) {sorted({cfg.nodes[d_.node].lineno for d_ in ds_ if d_.kind != 'param'})})"
+            else:
+                got[p] = v
+                if _unread(v) or not _built_from(v, params):
+                    unread.append(v)
+        okf = all(got[p] == p for p in bparams)
+        if not okf and unread and all(got[p] == p or got[p] in unread for p in bparams):
+            raise AnalysisError(f"{site}: forwarded value `{unread[0][:80]}` is not read (unrecognised form)")
+        ck.ob("R1-fan-out", site, "forwards-all-arguments", okf, f"{name}({', '.join(f'{p}={got[p]}' for p in bparams)})",
+              "" if okf else f"every member must receive the identical record: each of ({', '.join(bparams)}) forwarded unchanged to the parameter of the same name", loc(mi, c))
+
+
+# ---------------------------------------------------------------------------------------------------------------------------
+_READ_METHODS = {"get", "keys", "values", "items", "index", "count", "copy"}
+_PURE_FUNCS = {"len", "str", "repr", "format", "print", "list", "tuple", "sorted", "isinstance", "bool", "any", "all", "min", "max", "sum"}
+
+
+def _reads_only(tree, is_c, elements_immutable=False) -> bool:
+    """No mention (``is_c``) of a container in ``tree`` can change it or let it escape: element reads, membership / comparisons,
+    arithmetic, formatting, read-only methods, arguments of pure builtins.  With ``elements_immutable`` (containers of numbers) an
+    element may also be bound to a name or passed to any call."""
+    par = {}
+    for p in ast.walk(tree):
+        for ch in ast.iter_child_nodes(p):
+            par[id(ch)] = p
+    for x in ast.walk(tree):
+        if not is_c(x):
+            continue
+        if not isinstance(getattr(x, "ctx", None), ast.Load):
+            return False
+        cur, p = x, par.get(id(x))
+        while isinstance(p, ast.Subscript) and p.value is cur:
+            if not isinstance(p.ctx, ast.Load):
+                return False
+            cur, p = p, par.get(id(p))
+        if p is None or isinstance(p, (ast.Compare, ast.BoolOp, ast.UnaryOp, ast.BinOp, ast.FormattedValue, ast.IfExp, ast.Assert)) or (isinstance(p, ast.Subscript) and p.slice is cur):
+            continue
+        if isinstance(p, ast.Attribute) and p.value is cur:
+            g = par.get(id(p))
+            if isinstance(g, ast.Call) and g.func is p and p.attr in _READ_METHODS:
+                continue
+            return False
+        if isinstance(p, ast.Call) and cur is not p.func and isinstance(p.func, ast.Name) and p.func.id in _PURE_FUNCS:
+            continue
+        if elements_immutable and cur is not x and not isinstance(cur.slice, ast.Slice) and ((isinstance(p, (ast.Call, ast.keyword)) and cur is not getattr(p, "func", None)) or (isinstance(p, (ast.Assign, ast.AnnAssign)) and p.value is cur) or isinstance(p, (ast.Tuple, ast.List, ast.Return))):
+            continue
+        return False
+    return True
+
+
+def _container_events(cfg, attrs, kp, site):
+    """{node id: [(attr, index expression, appended value expression)]} for the statements that grow self.<attr>[<key>] by one element,
+    in the forms  self.a[k].append(v) / self.a.setdefault(k, []).append(v) / self.a[k] += [v] / self.a[k] = self.a[k] + [v]  (the
+    container possibly through a local alias).  Every other statement that touches self.<attr> must be a creation of the empty entry,
+    an alias definition or a read; anything else (the container escapes, another mutating method) is undecided."""
+    events, aliases = {}, {}
+
+    def location(e, nid):
+        """(attr, index expr) when e denotes the list stored at self.<attr>[index]."""
+        e, at = _alias_value(cfg, nid, e)
+        if isinstance(e, ast.Subscript) and not isinstance(e.slice, ast.Slice):
+            b, _ = _alias_value(cfg, at, e.value)
+            if _self_attr(b, attrs):
+                return b.attr, e.slice
+        if isinstance(e, ast.Call) and isinstance(e.func, ast.Attribute) and e.func.attr == "setdefault" and len(e.args) == 2 and not e.keywords:
+            b, _ = _alias_value(cfg, at, e.func.value)
+            d = e.args[1]
+            empty = (isinstance(d, (ast.List, ast.Tuple)) and not d.elts) or (isinstance(d, ast.Call) and isinstance(d.func, ast.Name) and d.func.id == "list" and not d.args)
+            if _self_attr(b, attrs) and empty:
+                return b.attr, e.args[0]
+        return None
+
+    def one_elem(v):
+        return v.elts[0] if isinstance(v, ast.List) and len(v.elts) == 1 and not isinstance(v.elts[0], ast.Starred) else None
+
+    for n in cfg.nodes:
+        s = n.ast
+        if s is None or n.kind in ("entry", "exit"):
+            continue
+        root = s.test if n.kind == "test" and hasattr(s, "test") else s.iter if n.kind == "for" else s
+        if n.kind == "with":
+            root = ast.Tuple(elts=[i.context_expr for i in s.items], ctx=ast.Load())
+        elif isinstance(s, ast.ExceptHandler):
+            continue
+        if n.kind == "def":
+            if _mentions(s, attrs):
+                raise AnalysisError(f"{site}: the recorded containers are used in a nested function (unrecognised form)")
+            continue
+        names = {x.id for x in ast.walk(root) if isinstance(x, ast.Name) and isinstance(x.ctx, ast.Load) and x.id in aliases}
+        if not _mentions(root, attrs) and not names:
+            continue
+        is_c = lambda x: _self_attr(x, attrs) or (isinstance(x, ast.Name) and x.id in aliases and isinstance(x.ctx, ast.Load))
+        ev = None
+        if n.kind == "stmt" and isinstance(s, ast.Expr) and isinstance(s.value, ast.Call) and isinstance(s.value.func, ast.Attribute) and s.value.func.attr == "append" and len(s.value.args) == 1 and not s.value.keywords:
+            where = location(s.value.func.value, n.id)
+            if where is not None and _reads_only(s.value.args[0], is_c) and _reads_only(where[1], is_c):
+                ev = (where[0], where[1], s.value.args[0])
+        elif n.kind == "stmt" and isinstance(s, ast.AugAssign) and isinstance(s.op, ast.Add) and one_elem(s.value) is not None:
+            where = location(s.target, n.id)
+            if where is not None and _reads_only(s.value, is_c):
+                ev = (where[0], where[1], one_elem(s.value))
+        elif n.kind == "stmt" and isinstance(s, ast.Assign) and len(s.targets) == 1 and isinstance(s.targets[0], ast.Subscript):
+            where = location(s.targets[0], n.id)
+            v = s.value
+            if where is not None and isinstance(v, ast.BinOp) and isinstance(v.op, ast.Add) and one_elem(v.right) is not None and location(v.left, n.id) is not None \
+                    and location(v.left, n.id)[0] == where[0] and ast.dump(location(v.left, n.id)[1]) == ast.dump(where[1]) and _reads_only(v.right, is_c):
+                ev = (where[0], where[1], one_elem(v.right))
+            elif where is not None and ((isinstance(v, (ast.List, ast.Tuple)) and not v.elts) or (isinstance(v, ast.Call) and isinstance(v.func, ast.Name) and v.func.id == "list" and not v.args and not v.keywords)):
+                continue   # creation of the empty entry
+        elif n.kind == "stmt" and isinstance(s, ast.Assign) and len(s.targets) == 1 and isinstance(s.targets[0], ast.Name) and location(s.value, n.id) is not None:
+            aliases[s.targets[0].id] = n.id   # series = self.stats[key]
+            continue
+        elif n.kind == "stmt" and isinstance(s, ast.Expr) and isinstance(s.value, ast.Call) and isinstance(s.value.func, ast.Attribute) and s.value.func.attr == "setdefault" and location(s.value, n.id) is not None:
+            continue   # self.stats.setdefault(key, []) for its effect: creation of the empty entry
+        if ev is not None:
+            events.setdefault(n.id, []).append(ev)
+            if cfg.enclosing_loops(n.id):
+                raise AnalysisError(f"{site}: `{short(s, 60)}` records inside a loop (unrecognised form)")
+            continue
+        if not _reads_only(root, is_c):
+            raise AnalysisError(f"{site}: `{short(root, 70)}` uses the recorded containers in a way that is not read (unrecognised form)")
+    return events
+
+
+def _x_key_tables(repo, g, cq):
+    """Displays of three distinct strings naming the x axes (must contain "episode" and "step") that get_stat can see: in its body, or
+    bound at module / class level to a name it reads."""
+    def table(e):
+        if isinstance(e, (ast.List, ast.Tuple)) and len(e.elts) == 3 and all(isinstance(x, ast.Constant) and isinstance(x.value, str) for x in e.elts):
+            vals = [x.value for x in e.elts]
+            if len(set(vals)) == 3 and {"episode", "step"} <= set(vals):
+                return vals
+        return None
+    out = [(table(n), n, g._module) for n in ast.walk(g) if table(n)]
+    mi = g._module
+    for x in ast.walk(g):
+        bound = None
+        if isinstance(x, ast.Name) and isinstance(x.ctx, ast.Load) and isinstance(mi.defs.get(x.id), (ast.Assign, ast.AnnAssign)):
+            bound = [(mi.defs[x.id], mi)]
+        elif isinstance(x, ast.Attribute) and isinstance(x.value, ast.Name):
+            bound = []
+            for c in repo.mro(cq):
+                cls = repo.cls(c)
+                if x.value.id in ("self", "cls", cls.name):
+                    bound += [(st, cls._module) for st in cls.body if isinstance(st, (ast.Assign, ast.AnnAssign)) and any(isinstance(t, ast.Name) and t.id == x.attr for t in (st.targets if isinstance(st, ast.Assign) else [st.target]))]
+        for st, m2 in bound or []:
+            if st.value is not None and table(st.value):
+                out.append((table(st.value), st.value, m2))
+    return out
+
+
+def _record_get(ck, repo, nf):
+    for cq in (LG + "MemoryLogger", LG + "StandardLogger"):
+        fn = _mi(repo, cq, "record_stat")
+        mi = fn._module
+        cfg = nf.cfg_of(fn)
+        names = param_names(fn)
+        site = f"{cq}.record_stat"
+        if len(names) < 6 or fn.args.vararg or fn.args.kwarg:
+            raise AnalysisError(f"{site}: signature ({', '.join(names)}) is not (self, key, value, episode, step, t, ...) (unrecognised form)")
+        kp, vp, ep, sp, tp = names[1:6]   # roles by position in the signature
+        env = {p: Poly.atom(p, {p}, {p}) for p in names}
+        events = _container_events(cfg, ("stats", "stats_loc"), kp, site)
+        if not any(a == "stats" for evs in events.values() for a, _, _ in evs) or not any(a == "stats_loc" for evs in events.values() for a, _, _ in evs):
+            raise AnalysisError(f"{site}: no statement that appends to self.stats[{kp}] / self.stats_loc[{kp}] found (unrecognised form)")
+
+        def before(pe, nid):
+            for a, k_, v_ in events.get(nid, []):
+                kc = pe.ev(k_).canon()
+                if kc != kp:
+                    raise AnalysisError(f"{site}: records under `{kc[:60]}`, not under the key parameter (unrecognised form)")
+                pe.grown.append((a, pe.ev(v_)))
+        res = _paths_lits(nf, cfg, mi, site, env, before=before)
+        LOC = {ep, sp, tp, "_n_episodes", "n_steps"}
+        bad_count, bad_tuple, bad_default, forms, unread = [], [], [], set(), []
+        for pe, lits, pth in res:
+            vals = [v for a, v in pe.grown if a == "stats"]
+            locs = [v for a, v in pe.grown if a == "stats_loc"]
+            if len(vals) != 1 or len(locs) != 1:
+                bad_count.append((f"{len(vals)} value(s)", f"{len(locs)} location(s)"))   # every statement touching the containers was read: a path witness
+                continue
+            v0 = vals[0].canon()
+            if v0 != vp:
+                if _unread(v0) or not _built_from(v0, set(names) | LOC):
+                    unread.append(f"recorded value `{v0[:80]}`")
+                else:
+                    bad_count.append((v0, "instead of the value"))
+                continue
+            lt = locs[0]
+            if lt.elems is None or len(lt.elems) != 3:
+                raise AnalysisError(f"{site}: recorded location `{lt.canon()[:80]}` is not a 3-tuple (unrecognised idiom)")
+            e_, s_, t_ = (x.canon() for x in lt.elems)
+            forms.add((e_, s_, t_[:40]))
+            e_ = "self._n_episodes".join(e_.split("self.n_episodes"))     # the property n_episodes reports _n_episodes
+            for got, par, attr in ((e_, ep, "self._n_episodes"), (s_, sp, "self.n_steps")):
+                NONE = {f"Is(None, {par})", f"Is({par}, None)"}
+                NOT_NONE = {f"IsNot(None, {par})", f"IsNot({par}, None)", f"not(Is(None, {par}))", f"not(Is({par}, None))"}
+                is_none = any(l in NONE for l in lits)
+                not_none = any(l in NOT_NONE for l in lits)
+                ite_ok = {f"ite(Is(None, {par}), {attr}, {par})", f"ite(Is({par}, None), {attr}, {par})", f"ite(IsNot(None, {par}), {par}, {attr})", f"ite(IsNot({par}, None), {par}, {attr})"}
+                if got in ite_ok or (is_none and got == attr) or (not_none and got == par):
+                    continue
+                other_tests = [l for l in lits if par in _toks(l) and l not in NONE | NOT_NONE]
+                if _unread(got):
+                    unread.append(f"{par} recorded as `{got[:80]}`")
+                elif got in (par, attr) and (is_none or not_none):
+                    bad_default.append((par, got, "None" if is_none else "given"))   # contradicts the None test of this very path
+                elif got in (par, attr) and other_tests:
+                    unread.append(f"{par} recorded as `{got}` under {other_tests[:2]}")
+                elif _built_from(got, {par, attr.split('.')[1]}):
+                    # the role is right but the defaulting rule is another one (`x or default` treats 0 as missing; no None test on this path)
+                    bad_default.append((par, got, "?"))
+                elif _built_from(got, LOC):
+                    bad_tuple.append((par, got))    # another documented quantity in this slot
+                else:
+                    unread.append(f"{par} recorded as `{got[:80]}`")
+            if _unread(t_):
+                unread.append(f"time recorded as `{t_[:80]}`")
+            elif tp not in _toks(t_) and _built_from(t_, LOC - {tp}):
+                bad_tuple.append((tp, t_))      # built from the episode / step quantities only
+        if unread and not (bad_count or bad_tuple or bad_default):
+            raise AnalysisError(f"{site}: {unread[0]} is not read (unrecognised form)")
+        ck.ob("R2-record-get", site, "appends-once-per-path", not bad_count, f"{len(res)} paths", "" if not bad_count else f"some path records nothing, twice or another value: {bad_count[:1]}", loc(mi, fn))
+        ck.ob("R2-record-get", site, "location-tuple", not bad_tuple, f"{sorted(forms)[:3]}", "" if not bad_tuple else f"the location must be (episode, step, time) in this order; got {bad_tuple[:2]}", loc(mi, fn))
+        ck.ob("R2-record-get", site, "defaults", not bad_default, "episode <- _n_episodes, step <- n_steps exactly when omitted (None)", "" if not bad_default else f"an explicitly given episode / step (including 0) must be recorded as given, an omitted one must default to the logger's counter: {bad_default[:2]}", loc(mi, fn))
+        # get_stat: the x-axis value of a record is the element of the location tuple named by x_key, in recording order
+        g = _mi(repo, cq, "get_stat")
+        tables = _x_key_tables(repo, g, cq)
+        if not tables:
+            raise AnalysisError(f"{cq}.get_stat: table of x keys not found (unrecognised idiom)")
+        wrong = [t for t in tables if t[0][:2] != ["episode", "step"]]
+        order, at, m2 = (wrong or tables)[0]
+        ck.ob("R2-record-get", f"{cq}.get_stat", "key-table-matches-tuple-order", not wrong, f"x keys {order} index the recorded (episode, step, t)", "" if not wrong else "get_stat must index the location tuple in the order it was recorded", loc(m2, at))
+        # the selection reads self.stats_loc[key] element-wise with that index and self.stats[key] unchanged
+        if not _mentions(g, ("stats_loc",)) or not _mentions(g, ("stats",)):
+            raise AnalysisError(f"{cq}.get_stat: recorded containers are not read directly (unrecognised idiom)")
+
+
+# ---------------------------------------------------------------------------------------------------------------------------
+def _class_methods(repo, cq):
+    """[(owner class, FunctionDef)] of the methods a class has, own or inherited from repository classes below the interface, in MRO
+    order (a shadowed definition is listed too: it may be reached through super())."""
+    out = []
+    for c in repo.mro(cq):
+        if c == BASE:
+            continue
+        cls = repo.cls(c)
+        for st in cls.body:
+            if isinstance(st, ast.FunctionDef):
+                st._module = cls._module
+                out.append((c, st))
+    return out
+
+
+def _super_delegate(nf, fn, later):
+    """The next definition of the method (``later``: the definitions after this one in the MRO) when ``fn`` hands its own parameters
+    to super().<same method>(...) exactly once on every path; else None."""
+    cfg = nf.cfg_of(fn)
+    sup = stmt_calls(cfg, lambda c: isinstance(c.func, ast.Attribute) and c.func.attr == fn.name and isinstance(c.func.value, ast.Call) and isinstance(c.func.value.func, ast.Name) and c.func.value.func.id == "super" and not c.func.value.args)
+    if len(sup) != 1 or not later or not on_every_path_once(cfg, [sup[0][0].id]):
+        return None
+    n, c = sup[0]
+    nxt = later[0][1]
+    if any(isinstance(a_, ast.Starred) for a_ in c.args) or any(k.arg is None for k in c.keywords):
+        return None
+    b = bind_call(nxt, c, skip_self=True)
+    own, theirs = positional_params(fn)[1:], positional_params(nxt)[1:]
+    sc = Scope(cfg, fn._module, {}, fn.name)
+    for i, p in enumerate(theirs):
+        if i >= len(own) or p not in b or nf.poly(b[p], sc, n.id).canon() != own[i]:
+            return None
+    return later[0]
+
+
+def _counters(ck, repo, nf):
+    loggers = [LG + x for x in ("StandardLogger", "MemoryLogger", "StdoutLogger", "AIMLogger")] + [OC]
+    transparent = repo.transparent_helpers()
+    iface = {m.name for m in _public_methods(repo.cls(BASE))}
+    COUNTERS = {"self._n_episodes": "start_new_episode", "self.n_steps": "stop_episode"}
+    WHY = {"start_new_episode": "the episode counter may only be advanced by one in start_new_episode", "stop_episode": "the step counter may only be advanced by the episode's step count in stop_episode"}
+    for cq in loggers:
+        methods = _class_methods(repo, cq)
+        names = {fn.name for _, fn in methods}
+        # private helpers act on behalf of the methods that call them
+        callers = {}
+        for oc, fn in methods:
+            for x in ast.walk(fn):
+                if isinstance(x, ast.Call) and isinstance(x.func, ast.Attribute) and isinstance(x.func.value, ast.Name) and x.func.value.id == "self" and x.func.attr in names:
+                    callers.setdefault(x.func.attr, set()).add(fn.name)
+
+        def roles(nm, seen=()):
+            if nm in iface or (nm.startswith("__") and nm.endswith("__")):
+                return {nm}
+            out = set()
+            for c in callers.get(nm, ()):
+                if c not in seen:
+                    out |= roles(c, seen + (nm,))
+            return out
+        for oc, meth in methods:
+            nm = meth.name
+            if f"{oc}.{nm}" in transparent:
+                continue    # every call of this helper was expanded into its callers: read there
+            mi = meth._module
+            cfg = nf.cfg_of(meth)
+            for n in cfg.nodes:
+                if n.kind != "stmt" or not isinstance(n.ast, (ast.Assign, ast.AugAssign)):
+                    continue
+                if isinstance(n.ast, ast.Assign) and any(isinstance(t, (ast.Tuple, ast.List)) and any(dotted(e) in COUNTERS for e in t.elts) for t in n.ast.targets):
+                    if roles(nm) == {"__init__"} and isinstance(n.ast.value, (ast.Tuple, ast.List)) and all(isinstance(e, ast.Constant) and e.value == 0 for e in n.ast.value.elts):
+                        continue
+                    raise AnalysisError(f"{cq}.{nm}: `{short(n.ast, 60)}` writes a counter through a tuple assignment (unrecognised form)")
+                for t in (n.ast.targets if isinstance(n.ast, ast.Assign) else [n.ast.target]):
+                    d = dotted(t)
+                    if d not in COUNTERS:
+                        continue
+                    sc = Scope(cfg, mi, {}, f"{cq}.{nm}")
+                    newv = nf.poly(n.ast.value, sc, n.id) if isinstance(n.ast, ast.Assign) else nf._binop_polys(Poly.atom(d, {d}, {d}), nf.poly(n.ast.value, sc, n.id), n.ast.op)
+                    nv = newv.canon()
+                    tp = [p for p in positional_params(meth) if p != "self"]
+                    owner = COUNTERS[d]
+                    rl = roles(nm)
+                    short_d = d.split(".")[1]
+                    if rl == {"__init__"}:
+                        ok, why = nv == "0", "the counter must start at 0"
+                        if not ok and not newv.is_const():
+                            raise AnalysisError(f"{cq}.{nm}: initial value `{nv[:60]}` of {short_d} is not read (unrecognised form)")
+                    elif rl == {owner}:
+                        if owner == "stop_episode" and (nm != owner or not tp):
+                            raise AnalysisError(f"{cq}.{nm}: the step counter is advanced by a helper of stop_episode (unrecognised form)")
+                        want = "1 + self._n_episodes" if owner == "start_new_episode" else nf.poly(parse_expr(f"self.n_steps + {tp[0]}"), Scope(None, mi, {}, cq), None).canon()
+                        ok, why = nv == want, WHY[owner]
+                        if not ok and (_unread(nv) or not _built_from(nv, _toks(want))):
+                            raise AnalysisError(f"{cq}.{nm}: new value `{nv[:60]}` of {short_d} is not read (unrecognised form)")
+                    elif rl and rl <= iface | {"__init__"}:
+                        ok, why = False, WHY[owner]    # written on behalf of another interface method: positive evidence of a second owner
+                    else:
+                        raise AnalysisError(f"{cq}.{nm}: writes {short_d}, but it is not known on behalf of which interface method (unrecognised form)")
+                    ck.ob("R3-counters", f"{cq}.{nm}", f"writes:{short_d}", ok, f"{short_d}' = {nv}", "" if ok else why, loc(mi, n.ast))
+        for meth, attr in (("start_new_episode", "self._n_episodes"), ("stop_episode", "self.n_steps")):
+            defs_ = [(oc, fn) for oc, fn in methods if fn.name == meth]
+            if not defs_:
+                raise AnalysisError(f"{cq}.{meth} not found")
+            while True:
+                fn = defs_[0][1]
+                cfg = nf.cfg_of(fn)
+                ws = [n for n in cfg.nodes if n.kind == "stmt" and isinstance(n.ast, (ast.Assign, ast.AugAssign)) and any(dotted(t) == attr for t in (n.ast.targets if isinstance(n.ast, ast.Assign) else [n.ast.target]))]
+                nxt = None if ws else _super_delegate(nf, fn, defs_[1:])
+                if nxt is None:
+                    break
+                defs_ = defs_[1:]     # super().<method>(<own parameters>) on every path: the next definition does the counting
+            if not ws and any(isinstance(x, (ast.Call, ast.Assign, ast.AugAssign, ast.AnnAssign)) for x in ast.walk(fn)):
+                raise AnalysisError(f"{cq}.{meth}: no statement that advances {attr} found (unrecognised form)")
+            if any(cfg.enclosing_loops(w.id) for w in ws):
+                raise AnalysisError(f"{cq}.{meth}: {attr} is advanced in a loop (unrecognised form)")
+            ok = bool(ws) and on_every_path_once(cfg, [w.id for w in ws])   # not ok: the body does nothing, a path avoids the write, or a path writes twice
+            ck.ob("R3-counters", f"{cq}.{meth}", "advances-counter", ok, f"{[short(n.ast) for n in ws]}", "" if ok else f"must advance {attr} exactly once on every path", loc(fn._module, fn))
+
+
+def _instance_state(ck, repo):
+    """Records live in per-instance containers: a mutable container that the methods grow / index through `self` must be created for
+    each instance (bound in a method, normally __init__).  A dict / list literal bound only in the class body is one object shared by
+    every instance, so one logger would return what another recorded."""
+    n = 0
+
+    def flat(t):
+        return [x for e in t.elts for x in flat(e)] if isinstance(t, (ast.Tuple, ast.List)) else [t.value] if isinstance(t, ast.Starred) else [t]
+    for cq in [LG + x for x in ("StandardLogger", "MemoryLogger", "StdoutLogger", "AIMLogger", "LoggerList")] + [OC]:
+        cls = repo.cls(cq)
+        mi = cls._module
+        chain = [repo.cls(c) for c in repo.mro(cq) if c.startswith(repo.PKG)]
+        class_level = {}
+        bound_in_method, mutated = set(), {}
+        for c in chain:
+            for st in c.body:
+                if isinstance(st, (ast.Assign, ast.AnnAssign)):
+                    tg = st.targets[0] if isinstance(st, ast.Assign) else st.target
+                    v = st.value
+                    if isinstance(tg, ast.Name) and isinstance(v, (ast.Dict, ast.List, ast.Set)) or (isinstance(tg, ast.Name) and isinstance(v, ast.Call) and isinstance(v.func, ast.Name) and v.func.id in ("dict", "list", "set", "defaultdict", "deque")):
+                        class_level[tg.id] = st
+                if isinstance(st, ast.FunctionDef):
+                    for x in ast.walk(st):
+                        if isinstance(x, (ast.Assign, ast.AnnAssign, ast.AugAssign)):
+                            for t in [y for t0 in (x.targets if isinstance(x, ast.Assign) else [x.target]) for y in flat(t0)]:
+                                if isinstance(t, ast.Attribute) and dotted(t.value) == "self":
+                                    bound_in_method.add(t.attr)
+                                if isinstance(t, ast.Subscript) and isinstance(t.value, ast.Attribute) and dotted(t.value.value) == "self":
+                                    mutated.setdefault(t.value.attr, x)
+                        if isinstance(x, ast.Call) and isinstance(x.func, ast.Attribute) and x.func.attr in ("append", "extend", "update", "setdefault", "add", "insert", "pop", "clear"):
+                            r = x.func.value
+                            while isinstance(r, ast.Subscript):
+                                r = r.value
+                            if isinstance(r, ast.Attribute) and dotted(r.value) == "self":
+                                mutated.setdefault(r.attr, x)
+                        if isinstance(x, ast.Call) and dotted(x.func) in ("setattr", "vars") or (isinstance(x, ast.Attribute) and x.attr == "__dict__"):
+                            bound_in_method.add("*")    # attributes may be bound reflectively
+        for attr, st in sorted(class_level.items()):
+            if attr in mutated:
+                if "*" in bound_in_method and attr not in bound_in_method:
+                    raise AnalysisError(f"{cq}: instance attributes are bound reflectively (unrecognised form)")
+                n += 1
+                ok = attr in bound_in_method
+                ck.ob("R2-record-get", cq, f"per-instance:{attr}", ok, f"`{short(st, 60)}` in the class body; mutated by `{short(mutated[attr], 50)}`",
+                      "" if ok else f"`{attr}` is one container shared by all instances of the class (bound only in the class body) and is mutated through self: records of different loggers end up in the same container", loc(mi, st))
+    ck.count("class-level-mutable-containers", n)
+
+
+# ---------------------------------------------------------------------------------------------------------------------------
+def _wrapped(a: str, b: str) -> bool:
+    """One canonical text occurs inside the other: the two values differ by a wrapper the rule does not know, not by their ingredients."""
+    return a in b or b in a
+
+
+def _save_list(ck, repo, nf, cq, key_order, key_path):
+    """The path listed in checkpoint_path[key] is the one that was written, and it is listed only after the write finished."""
+    fn = _mi(repo, cq, "_save_checkpoint")
+    mi = fn._module
+    cfg = nf.cfg_of(fn)
+    site = cq + "._save_checkpoint"
+    direct = _self_calls(nf, cfg, mi, "self.checkpointer", "save")
+    via = _self_calls(nf, cfg, mi, "self", "save_model")      # OrbaxCheckpointer.save_model saves and waits (checked by itself)
+    wait = _self_calls(nf, cfg, mi, "self.checkpointer", "wait_until_finished")
+    app = [(n, c) for n, c in stmt_calls(cfg, lambda c: isinstance(c.func, ast.Attribute) and c.func.attr == "append") if recv_canon(nf, cfg, mi, n, c).startswith("self.checkpoint_path[")]
+    ck.need(len(direct) + len(via) == 1 and len(app) == 1 and len(app[0][1].args) == 1, f"{site}: save / listing not found (unrecognised idiom)")
+    (sn, scall), (an, acall) = (direct + via)[0], app[0]
+    if cfg.enclosing_loops(sn.id) or cfg.enclosing_loops(an.id):
+        raise AnalysisError(f"{site}: save / listing in a loop (unrecognised idiom)")
+    opaque = _opaque_self_calls(nf, cfg, mi, {("self.checkpointer", "save"), ("self.checkpointer", "wait_until_finished"), ("self", "save_model"), ("self.checkpoint_path[", "append")})
+    ok = cfg.dominates(sn.id, an.id)      # otherwise some path reaches the listing without the save
+    if ok and direct:
+        ok = cfg.paths_avoiding(sn.id, an.id, {w.id for w, _ in wait}) is None     # a path from the save to the listing without a wait
+        if not ok and not wait and opaque:
+            raise AnalysisError(f"{site}: no wait_until_finished found, but `{short(opaque[0][1], 50)}` may do it (unrecognised form)")
+    ck.ob("R4-save-before-list", site, key_order, ok, " -> ".join(short(c, 50) for _, c in direct + via + wait + app), "" if ok else "a path may be listed only after it was saved and the write finished", loc(mi, fn))
+    if direct:
+        a_save = arg_of(scall, 0, "directory")
+    else:
+        sm = _mi(repo, cq, "save_model")
+        if any(isinstance(a_, ast.Starred) for a_ in scall.args) or any(k.arg is None for k in scall.keywords):
+            raise AnalysisError(f"{site}: `{short(scall, 60)}` passes packed arguments (unrecognised form)")
+        a_save = bind_call(sm, scall, skip_self=True).get(positional_params(sm)[1])
+    if a_save is None:
+        raise AnalysisError(f"{site}: the path argument of `{short(scall, 60)}` is not found (unrecognised form)")
+    sc = Scope(cfg, mi, {}, site)
+    p_save = nf.poly(a_save, sc, sn.id).canon()
+    p_app = nf.poly(acall.args[0], sc, an.id).canon()
+    same = p_save == p_app
+    if not same and (_unread(p_save) or _unread(p_app) or _wrapped(p_save, p_app) or not (_toks(p_app) <= _toks(p_save) or _toks(p_save) <= _toks(p_app))):
+        raise AnalysisError(f"{site}: saved `{p_save[:60]}` and listed `{p_app[:60]}` cannot be compared (unrecognised form)")
+    ck.ob("R4-save-before-list", site, key_path, same, f"saved {p_save[:60]} ; listed {p_app[:60]}", "" if same else "the listed path is not the one that was written", loc(mi, fn))
+
+
+def _save_then_list(ck, repo, nf):
+    _save_list(ck, repo, nf, LG + "StandardLogger", "save-wait-append", "same-path")
+    _save_list(ck, repo, nf, OC, "save-then-append", "same-path")
+
+
+def _save_model_waits(ck, repo, nf):
+    fn = _mi(repo, OC, "save_model")
+    mi = fn._module
+    cfg = nf.cfg_of(fn)
+    save = _self_calls(nf, cfg, mi, "self.checkpointer", "save")
+    wait = _self_calls(nf, cfg, mi, "self.checkpointer", "wait_until_finished")
+    ck.need(len(save) == 1 and not cfg.enclosing_loops(save[0][0].id), f"{OC}.save_model: expected one self.checkpointer.save call")
+    ok = cfg.paths_avoiding(save[0][0].id, cfg.exit, {w.id for w, _ in wait}) is None     # otherwise: a path from the save to the return without a wait
+    opaque = _opaque_self_calls(nf, cfg, mi, {("self.checkpointer", "save"), ("self.checkpointer", "wait_until_finished")})
+    if not ok and not wait and opaque:
+        raise AnalysisError(f"{OC}.save_model: no wait_until_finished found, but `{short(opaque[0][1], 50)}` may do it (unrecognised form)")
+    ck.ob("R4-save-before-list", OC + ".save_model", "save-and-wait", ok, "save ; wait_until_finished on every path", "" if ok else "the write must be awaited before save_model returns: the caller lists the path right afterwards", loc(mi, fn))
+
+
+# ---------------------------------------------------------------------------------------------------------------------------
+def _not_cadence(c) -> bool:
+    """Conditions about verbosity / None-defaults are not part of the cadence."""
+    for x in ast.walk(c):
+        if (isinstance(x, ast.Name) and x.id == "verbose") or (isinstance(x, ast.Attribute) and x.attr == "verbose"):
+            return True
+        if isinstance(x, ast.Compare) and any(isinstance(o, (ast.Is, ast.IsNot)) for o in x.ops) and any(isinstance(v, ast.Constant) and v.value is None for v in [x.left] + x.comparators):
+            return True
+    return False
+
+
+def _cadence_orbax(ck, repo, nf):
+    from ..sem import bool_equiv
+    fn = _mi(repo, OC, "record_epoch")
+    mi = fn._module
+    cfg = nf.cfg_of(fn)
+    site = OC + ".record_epoch"
+    names = param_names(fn)
+    if len(names) < 5 or fn.args.vararg or fn.args.kwarg:
+        raise AnalysisError(f"{site}: signature ({', '.join(names)}) is not (self, key, value, episode, step, ...) (unrecognised form)")
+    kp, sp = names[1], names[4]    # roles by position in the signature
+    saves = _self_calls(nf, cfg, mi, "self", "_save_checkpoint") or _self_calls(nf, cfg, mi, "self", "save_model")
+    ck.need(len(saves) >= 1, f"{site}: no checkpoint call (anchor vanished)")
+    in_loop = any(cfg.enclosing_loops(n.id) for n, _ in saves)
+    twice = any(a is not b and cfg.paths_avoiding(a.id, b.id, set()) is not None for a, _ in saves for b, _ in saves)
+    if len(saves) > 1 and not in_loop and not twice:
+        raise AnalysisError(f"{site}: {len(saves)} alternative checkpoint calls (unrecognised form)")
+    ok1 = not in_loop and not twice     # otherwise: a path witness with two saves / a save per iteration
+    ck.ob("R5-cadence", site, "one-save-per-record", ok1, f"{len(saves)} save call(s)", "" if ok1 else "at most one checkpoint may be written per record", loc(mi, fn))
+    if not ok1:
+        return
+    sn, scall = saves[0]
+    # the condition under which the save runs: conjunction of its (syntactic + dominating) branch conditions, as one boolean expression
+    conds = []
+    for b, lab in cfg.control_deps(sn.id):
+        bn = cfg.nodes[b]
+        if not (bn.kind == "test" and isinstance(bn.ast, ast.If)):
+            raise AnalysisError(f"{site}: the checkpoint call depends on `{short(bn.ast, 50)}` (unrecognised form)")
+        conds.append(bn.ast.test if lab else ast.UnaryOp(op=ast.Not(), operand=bn.ast.test))
+    syntactic = {b for b, _ in cfg.control_deps(sn.id)}
+    for bn in cfg.nodes:
+        if bn.kind == "test" and isinstance(bn.ast, ast.If) and bn.id not in syntactic and cfg.dominates(bn.id, sn.id):
+            reach = {lab: cfg.paths_avoiding(bn.id, sn.id, set(), feasible=False, first_label=lab) is not None for lab in (True, False)}
+            if reach[True] != reach[False]:
+                conds.append(bn.ast.test if reach[True] else ast.UnaryOp(op=ast.Not(), operand=bn.ast.test))
+    n_all = len(conds)
+    conds = [c for c in conds if not _not_cadence(c)]
+    if not conds:
+        if n_all or any(isinstance(x, (ast.Try, ast.Match, ast.With)) for x in ast.walk(fn)):
+            raise AnalysisError(f"{site}: the condition of the checkpoint is not read (unrecognised form)")
+        ck.ob("R5-cadence", site, "wrap-or-gap-predicate", False, "the save is unconditional", "a checkpoint is written on every record, not once per crossed interval", loc(mi, scall))
+        return
+    got = conds[0] if len(conds) == 1 else ast.BoolOp(op=ast.And(), values=conds)
+    want = parse_expr(f"({kp} in self.checkpoint_frequencies) and ((self.last_step[{kp}] % self.checkpoint_frequencies[{kp}] > {sp} % self.checkpoint_frequencies[{kp}]) or ({sp} - self.last_step[{kp}] >= self.checkpoint_frequencies[{kp}]))")
+    ast.fix_missing_locations(got)
+    eq = bool_equiv(nf, mi, got, want, cfg1=cfg, at1=sn.id, opaque1=set(names))
+    if eq is None:
+        raise AnalysisError(f"{site}: the condition of the checkpoint `{short(got, 120)}` is built from other comparisons than the documented wrap-or-gap test: equivalence not decidable here")
+    ck.ob("R5-cadence", site, "wrap-or-gap-predicate", eq, f"save iff {short(got, 150)}", "" if eq else f"documented predicate: registered key and (last % f > step % f or step - last >= f); the truth tables differ", loc(mi, scall))
+
+
+def _cadence_orbax_state(ck, repo, nf):
+    # last_step[key] = step on every path, after the guard read the previous value
+    fn = _mi(repo, OC, "record_epoch")
+    mi = fn._module
+    cfg = nf.cfg_of(fn)
+    site = OC + ".record_epoch"
+    names = param_names(fn)
+    if len(names) < 5 or fn.args.vararg or fn.args.kwarg:
+        raise AnalysisError(f"{site}: signature ({', '.join(names)}) is not (self, key, value, episode, step, ...) (unrecognised form)")
+    kp, sp = names[1], names[4]    # roles by position in the signature
+    stores = lambda n: [t for t in (n.ast.targets if isinstance(n.ast, ast.Assign) else [n.ast.target]) if isinstance(t, ast.Subscript) and _self_attr(_alias_value(cfg, n.id, t.value)[0], ("last_step",))]
+    upd = [n for n in cfg.nodes if n.kind == "stmt" and isinstance(n.ast, ast.Assign) and stores(n)]
+    tests = [n for n in cfg.nodes if n.kind == "test" and hasattr(n.ast, "test") and _mentions(n.ast.test, ("last_step",))]
+    alias_reads = [n for n in cfg.nodes if n.kind == "stmt" and n not in upd and isinstance(n.ast, (ast.Assign, ast.AnnAssign)) and n.ast.value is not None and _mentions(n.ast.value, ("last_step",))]
+    need = set().union(*[n.uses for n in cfg.nodes if n.kind == "test"] + [set()])     # names the tests depend on, through local definitions
+    for _ in range(8):
+        need |= set().union(*[n.uses for n in cfg.nodes if n.kind == "stmt" and any(d.name in need for d in n.defs)] + [set()])
+    alias_defs, alias_reads = alias_reads, [n for n in alias_reads if any(d.name in need for d in n.defs)]
+    reads = tests + alias_reads
+    for n in cfg.nodes:
+        if n.kind == "stmt" and n not in upd and n not in alias_defs and n.ast is not None and not isinstance(n.ast, ast.ExceptHandler) and _mentions(n.ast, ("last_step",)) and not _reads_only(n.ast, lambda x: _self_attr(x, ("last_step",)), True):
+            raise AnalysisError(f"{site}: `{short(n.ast, 60)}` uses last_step in a way that is not read (unrecognised form)")
+    if not reads and not upd:
+        raise AnalysisError(f"{site}: the cadence state self.last_step is not used: another mechanism (unrecognised form)")
+    usc = Scope(cfg, mi, {}, site)
+    usc.opaque_names = set(names)
+    STEP = (sp, f"ite(Is(None, {sp}), self.n_steps, {sp})", f"ite(Is({sp}, None), self.n_steps, {sp})", f"ite(IsNot(None, {sp}), {sp}, self.n_steps)", f"ite(IsNot({sp}, None), {sp}, self.n_steps)")
+    bad_value = []
+    for u in upd:
+        t = stores(u)[0]
+        kc = nf.poly(t.slice, usc, u.id).canon()
+        v = nf.poly(u.ast.value, usc, u.id).canon()
+        if kc != kp:
+            raise AnalysisError(f"{site}: last_step[{kc[:40]}] is not the entry of the recorded key (unrecognised form)")
+        if v not in STEP:
+            if _unread(v) or not _built_from(v, set(names) | {"n_steps", "_n_episodes"}):
+                raise AnalysisError(f"{site}: last_step[{kp}] is set to `{v[:60]}` (unrecognised idiom)")
+            bad_value.append(v)
+    ids = {u.id for u in upd}
+    opaque = _opaque_self_calls(nf, cfg, mi, {("self", "_save_checkpoint"), ("self", "save_model")})
+    if not upd and opaque:
+        raise AnalysisError(f"{site}: no statement that sets last_step[{kp}] found, but `{short(opaque[0][1], 50)}` may do it (unrecognised form)")
+    ok = bool(upd) and not bad_value and cfg.paths_avoiding(cfg.entry, cfg.exit, ids) is None and all(cfg.paths_avoiding(u.id, r.id, set()) is None for u in upd for r in reads if r.id != u.id)
+    ck.ob("R5-cadence", site, "last-step-updated-after-guard", ok, f"{[short(n.ast) for n in upd]}", "" if ok else "last_step[key] must be set to step on every path, after the test read the previous value (otherwise crossings are missed or counted again)", loc(mi, fn))
+    fn2 = _mi(repo, OC, "define_checkpoint_frequency")
+    n2 = param_names(fn2)
+    if len(n2) < 3:
+        raise AnalysisError(f"{OC}.define_checkpoint_frequency: signature ({', '.join(n2)}) (unrecognised form)")
+    k2, ip = n2[1], n2[2]
+    cfg2 = nf.cfg_of(fn2)
+    bad, shown = [], {}
+    try:
+        paths2 = enumerate_paths(cfg2, cfg2.entry, {cfg2.exit})
+    except RuntimeError:
+        raise AnalysisError(f"{OC}.define_checkpoint_frequency: too many paths")
+    for pth in paths2:
+        pe = PathEval(nf, cfg2, fn2._module, "dcf", {p: Poly.atom(p, {p}, {p}) for p in n2})
+        for nid, lab in pth[:-1]:
+            pe.step(nid, lab)
+        st = {k: v for k, v in pe.store.items() if k.endswith(f"[{k2}]")}
+        shown = {k: v.canon() for k, v in st.items()}
+        f_, l_, p_ = (st.get(f"self.{a}[{k2}]") for a in ("checkpoint_frequencies", "last_step", "checkpoint_path"))
+        if f_ is None or l_ is None or p_ is None:
+            raise AnalysisError(f"{OC}.define_checkpoint_frequency: the initial entries of checkpoint_frequencies / last_step / checkpoint_path are not all found {sorted(shown)} (unrecognised form)")
+        for what, v, good in (("interval", f_, f_.canon() == ip), ("last step", l_, l_.canon() == "0"), ("path list", p_, p_.canon() in ("()", "list()") or (p_.elems is not None and len(p_.elems) == 0))):
+            if good:
+                continue
+            c = v.canon()
+            if what == "path list" and not (v.elems is not None and len(v.elems) > 0):
+                raise AnalysisError(f"{OC}.define_checkpoint_frequency: initial {what} `{c[:60]}` is not read (unrecognised form)")
+            if what != "path list" and (_unread(c) or not (v.is_const() or _built_from(c, n2))):
+                raise AnalysisError(f"{OC}.define_checkpoint_frequency: initial {what} `{c[:60]}` is not read (unrecognised form)")
+            bad.append((what, c))
+    ck.ob("R5-cadence", OC + ".define_checkpoint_frequency", "initial-state", not bad, f"{shown}", "" if not bad else f"registration must initialise interval, an empty path list and last step 0: {bad[:2]}", loc(fn2._module, fn2))
+
+
+def _cadence_standard(ck, repo, nf):
+    # StandardLogger: the counter is advanced exactly once per record, the checkpoint is written iff the key is registered and the
+    # advanced counter is a multiple of the interval
+    fn = _mi(repo, LG + "StandardLogger", "record_epoch")
+    mi = fn._module
+    cfg = nf.cfg_of(fn)
+    site = LG + "StandardLogger.record_epoch"
+    names = param_names(fn)
+    if len(names) < 2:
+        raise AnalysisError(f"{site}: signature (unrecognised form)")
+    kp = names[1]
+    env = {p: Poly.atom(p, {p}, {p}) for p in names}
+    save_ids = {n.id for n, _ in _self_calls(nf, cfg, mi, "self", "_save_checkpoint")} or {n.id for n, _ in _self_calls(nf, cfg, mi, "self.checkpointer", "save")}
+    ck.need(bool(save_ids), f"{site}: no checkpoint call (anchor vanished)")
+    if any(cfg.enclosing_loops(i) for i in save_ids):
+        raise AnalysisError(f"{site}: checkpoint call in a loop (unrecognised form)")
+    if any(not (cfg.nodes[i].kind == "stmt" and isinstance(cfg.nodes[i].ast, (ast.Expr, ast.Assign)) and isinstance(cfg.nodes[i].ast.value, ast.Call)) for i in save_ids):
+        raise AnalysisError(f"{site}: the checkpoint call is part of a larger expression (unrecognised form)")
+    is_epoch = lambda x: _self_attr(x, ("epoch",))
+    if not _mentions(fn, ("epoch",)):
+        raise AnalysisError(f"{site}: the counter self.epoch is not used (anchor vanished)")
+    for n in cfg.nodes:
+        if n.ast is None or n.kind != "stmt" or isinstance(n.ast, ast.ExceptHandler) or not _mentions(n.ast, ("epoch",)):
+            continue
+        tgs = n.ast.targets if isinstance(n.ast, ast.Assign) else [n.ast.target] if isinstance(n.ast, ast.AugAssign) else []
+        stored = [t for t in tgs if isinstance(t, ast.Subscript) and is_epoch(t.value)]      # epoch[k] = ... / epoch[k] += ...: evaluated per path
+        rest = [n.ast.value] + [t for t in tgs if t not in stored] + [t.slice for t in stored] if (tgs and stored) else [n.ast]
+        c = n.ast.value if isinstance(n.ast, ast.Expr) else None
+        if isinstance(c, ast.Call) and isinstance(c.func, ast.Attribute) and c.func.attr == "setdefault" and is_epoch(c.func.value) and len(c.args) == 2 and isinstance(c.args[1], ast.Constant) and c.args[1].value == 0 and type(c.args[1].value) is int:
+            rest = list(c.args)      # creation of the entry with 0 when it is missing: the same state as the `not in` branch
+        if any(not _reads_only(r, is_epoch, True) for r in rest):
+            raise AnalysisError(f"{site}: `{short(n.ast, 60)}` uses the epoch counter in a way that is not read (unrecognised form)")
+    res = _paths_lits(nf, cfg, mi, site, env)
+    EP = f"self.epoch[{kp}]"
+    F = f"self.checkpoint_frequencies[{kp}]"
+    reg = {f"In({kp}, self.checkpoint_frequencies)"}
+    unreg = {f"NotIn({kp}, self.checkpoint_frequencies)", f"not(In({kp}, self.checkpoint_frequencies))"}
+    due = {f"Eq(0, mod(1 + {EP}, {F}))", f"not(mod(1 + {EP}, {F}))"}
+    not_due = {f"NotEq(0, mod(1 + {EP}, {F}))", f"mod(1 + {EP}, {F})"}
+    ING = {"epoch", "checkpoint_frequencies", kp}
+    bad_inc, bad_save, unread = [], [], []
+    for pe, lits, pth in res:
+        newc = pe.store.get(EP)
+        # the entry is created (0) on this path: under a test that the key is new (in epoch, or in a container that is created with it)
+        first = any(k == EP and v.is_const() and v.const_value() == 0 for _, k, v in pe.log) and any(re.fullmatch(rf"NotIn\({re.escape(kp)}, self\.\w+\)", l) for l in lits)
+        want_c = "1" if first else f"1 + {EP}"
+        if newc is None and any(k.startswith("self.epoch[") for k in pe.store):
+            unread.append(f"epoch[{kp}] is not stored, but {[k for k in pe.store if k.startswith('self.epoch[')][:2]}")
+        elif newc is None:
+            bad_inc.append((None, want_c))     # no store to epoch[key] on this path (every statement that mentions self.epoch was read)
+        elif newc.canon() != want_c:
+            c = newc.canon()
+            if _unread(c) or not _built_from(c, ING):
+                unread.append(f"epoch[{kp}] becomes `{c[:80]}`")
+            else:
+                bad_inc.append((c, want_c))
+        n_saves = sum(1 for nid, lab in pth if nid in save_ids)
+        dl = [l.replace("mod(1, ", f"mod(1 + {EP}, ") if first else l for l in lits]
+        is_reg, is_unreg = any(l in reg for l in dl), any(l in unreg for l in dl)
+        is_due, is_not_due = any(l in due for l in dl), any(l in not_due for l in dl)
+        # literals about the counter / the interval in another form
+        cad = [l for l in dl if l not in reg | unreg | due | not_due and ("epoch" in _toks(l) and "mod" in _toks(l) or F in l)]
+        if n_saves > 1:
+            bad_save.append(("twice", lits))
+        elif n_saves == 1 and not (is_reg and is_due):
+            if is_unreg or is_not_due:
+                bad_save.append(("saved although not (registered and due)", [l for l in dl if l in unreg | not_due]))
+            elif any(not _unread(l) and not l.startswith(_COMPOUND) and _built_from(l, ING) for l in cad):
+                bad_save.append(("saved although not (registered and due): the test is on another quantity than the advanced counter", cad[:2]))
+            elif cad or (not is_reg and any("checkpoint_frequencies" in _toks(l) for l in dl)):
+                unread.append(f"checkpoint written under {(cad or dl)[:2]}")
+            else:
+                bad_save.append(("saved without a test of the advanced counter against the interval of a registered key", dl[:3]))
+        elif n_saves == 0 and is_reg and is_due:
+            bad_save.append(("not saved although registered and due", []))
+    if unread and not (bad_inc or bad_save):
+        raise AnalysisError(f"{site}: {unread[0]} (unrecognised idiom)")
+    ck.ob("R5-cadence", site, "count-then-test", not bad_inc, "epoch[key] advances by one on every path", "" if not bad_inc else f"every recorded epoch increments the counter exactly once: {bad_inc[:2]}", loc(mi, fn))
+    ck.ob("R5-cadence", site, "every-interval-th-epoch", not bad_save, "checkpoint iff key registered and the advanced epoch counter is a multiple of the interval", "" if not bad_save else f"{bad_save[:2]}", loc(mi, fn))
+
+
+def run(ck, repo: Repo, tier: str):
+    nf = NF(repo, inline_depth=1, inline_calls=False)
+    for group in (_fan_out, _record_get, _counters, _save_then_list, _save_model_waits, _cadence_orbax, _cadence_orbax_state, _cadence_standard):
+        ck.guard(group, ck, repo, nf)
+    ck.guard(_instance_state, ck, repo)
 
 
 _L, _C = "rl_blox/logging/logger.py", "rl_blox/logging/checkpointer.py"
@@ -471,8 +1014,40 @@ MUTANTS = [
     {"id": "c20-orbax-gap-gt", "file": _C, "rule": "R5", "find": "                (step - self.last_step[key]) >= self.checkpoint_frequencies[key]", "replace": "                (step - self.last_step[key]) > self.checkpoint_frequencies[key]"},
     {"id": "c20-orbax-wrap-ge", "file": _C, "rule": "R5", "find": "                > step % self.checkpoint_frequencies[key]", "replace": "                >= step % self.checkpoint_frequencies[key]"},
     {"id": "c20-standard-test-before-inc", "file": _L, "rule": "R5", "find": "        self.epoch_loc[key].append((episode, step, t))\n        self.epoch[key] += 1\n", "replace": "        self.epoch_loc[key].append((episode, step, t))\n"},
+    # violation paths that rest on positive evidence only (audit): a constant, a path witness, the documented ingredients combined differently
+    {"id": "c20-list-constant-episodes", "file": _L, "rule": "R1", "find": "        return self.loggers[0].n_episodes", "replace": "        return 0"},
+    {"id": "c20-list-not-overridden", "file": _L, "rule": "R1", "nth": 1, "find": "    def stop_episode(self, total_steps: int):\n        \"\"\"Register end of episode.\n\n        Parameters", "replace": "    def stop_all_episodes(self, total_steps: int):\n        \"\"\"Register end of episode.\n\n        Parameters"},
+    {"id": "c20-memory-records-key", "file": _L, "rule": "R2", "nth": 1, "find": "        self.stats[key].append(value)\n", "replace": "        self.stats[key].append(key)\n"},
+    {"id": "c20-memory-step-never-defaulted", "file": _L, "rule": "R2", "find": "        if step is None:\n            step = self.n_steps\n        if t is None:\n            t = time.time() - self.start_time\n        self.stats_loc[key].append((episode, step, t))\n        self.stats[key].append(value)\n\n    def get_stat", "replace": "        if t is None:\n            t = time.time() - self.start_time\n        self.stats_loc[key].append((episode, step, t))\n        self.stats[key].append(value)\n\n    def get_stat", "nth": 1},
+    {"id": "c20-stdout-steps-skipped", "file": _L, "rule": "R3", "find": "        self.n_steps += total_steps\n\n    def define_experiment(", "replace": "        if total_steps > 1:\n            self.n_steps += total_steps\n\n    def define_experiment("},
+    {"id": "c20-standard-lists-other-path", "file": _L, "rule": "R4", "find": "        self.checkpoint_path[key].append(checkpoint_path)", "replace": "        self.checkpoint_path[key].append(os.path.join(f\"{self.checkpoint_dir}\", f\"{self.start_time}_{self.algorithm_name}_{self.env_name}_{key}_{self.epoch[key]}/\"))"},
+    {"id": "c20-orbax-two-saves", "file": _C, "rule": "R5", "find": "                self._save_checkpoint(key, value, step)\n\n        self.last_step[key] = step", "replace": "                self._save_checkpoint(key, value, step)\n                self._save_checkpoint(key, value, step)\n\n        self.last_step[key] = step"},
+    {"id": "c20-orbax-last-step-never", "file": _C, "rule": "R5", "find": "                self._save_checkpoint(key, value, step)\n\n        self.last_step[key] = step\n", "replace": "                self._save_checkpoint(key, value, step)\n"},
+    {"id": "c20-orbax-last-step-counter", "file": _C, "rule": "R5", "find": "                self._save_checkpoint(key, value, step)\n\n        self.last_step[key] = step\n", "replace": "                self._save_checkpoint(key, value, step)\n\n        self.last_step[key] = self.n_steps\n"},
+    {"id": "c20-orbax-initial-last-step", "file": _C, "rule": "R5", "find": "        self.last_step[key] = 0\n", "replace": "        self.last_step[key] = checkpoint_interval\n"},
+    {"id": "c20-standard-save-when-not-due", "file": _L, "rule": "R5", "find": "            and self.epoch[key] % self.checkpoint_frequencies[key] == 0\n", "replace": "            and self.epoch[key] % self.checkpoint_frequencies[key] != 0\n"},
 ]
 BENIGN = [
     {"id": "c20-b-list-kwargs", "file": _L, "find": "            logger.record_epoch(key, value, episode, step, t)", "replace": "            logger.record_epoch(key, value, episode=episode, step=step, t=t)"},
     {"id": "c20-b-standard-order", "file": _L, "nth": 0, "find": "        self.stats_loc[key].append((episode, step, t))\n        self.stats[key].append(value)", "replace": "        self.stats[key].append(value)\n        self.stats_loc[key].append((episode, step, t))"},
+    # forms the rules read by meaning (audit): none of these changes what is recorded, counted, forwarded or saved
+    {"id": "c20-b-list-copy-and-slice", "file": _L, "edits": [("        for logger in self.loggers:\n            logger.stop_episode(total_steps)", "        for member in list(self.loggers):\n            member.stop_episode(total_steps)"), ("        for logger in self.loggers:\n            logger.start_new_episode()", "        members = self.loggers[:]\n        for logger in members:\n            logger.start_new_episode()")]},
+    {"id": "c20-b-list-mixin", "file": _L, "edits": [("class LoggerList(LoggerBase):\n    \"\"\"Combine multiple loggers.\"\"\"\n\n    loggers: list[LoggerBase]\n\n    def __init__(self, loggers: list[LoggerBase]):\n        assert len(loggers) > 0\n        self.loggers = loggers\n", "class _FanOut(LoggerBase):\n    loggers: list[LoggerBase]\n"),
+                                                    ("            logger.record_epoch(key, value, episode, step, t)\n", "            logger.record_epoch(key, value, episode, step, t)\n\n\nclass LoggerList(_FanOut):\n    \"\"\"Combine multiple loggers.\"\"\"\n\n    def __init__(self, loggers: list[LoggerBase]):\n        assert len(loggers) > 0\n        self.loggers = loggers\n")]},
+    {"id": "c20-b-memory-setdefault-alias", "file": _L, "nth": 1, "find": "        self.stats_loc[key].append((episode, step, t))\n        self.stats[key].append(value)\n\n", "replace": "        self.stats_loc.setdefault(key, []).append((episode, step, t))\n        series = self.stats[key]\n        series.append(value)\n        assert len(self.stats[key]) == len(self.stats_loc[key])\n\n"},
+    {"id": "c20-b-memory-renamed-parameters", "file": _L, "nth": 1, "find": "        if key not in self.stats:\n            self.stats_loc[key] = []\n            self.stats[key] = []\n        if episode is None:\n            episode = self._n_episodes\n        if step is None:\n            step = self.n_steps\n        if t is None:\n            t = time.time() - self.start_time\n        self.stats_loc[key].append((episode, step, t))\n        self.stats[key].append(value)\n\n",
+     "replace": "        self._record(key, value, episode, step, t)\n\n    def _record(self, name, val, ep, st, now):\n        if name not in self.stats:\n            self.stats_loc[name] = []\n            self.stats[name] = []\n        if ep is not None:\n            pass\n        else:\n            ep = self._n_episodes\n        st = st if st is not None else self.n_steps\n        if now is None:\n            now = time.time() - self.start_time\n        self.stats_loc[name] += [(ep, st, now)]\n        self.stats[name] += [val]\n\n"},
+    {"id": "c20-b-x-keys-module-constant", "file": _L, "all": True, "edits": [("class LoggerBase(abc.ABC):\n    \"\"\"Logger interface", "X_KEYS = (\"episode\", \"step\", \"time\")\n\n\nclass LoggerBase(abc.ABC):\n    \"\"\"Logger interface"), ("        assert key in self.stats\n        X_KEYS = [\"episode\", \"step\", \"time\"]\n", "        assert key in self.stats, (\"unknown\", \"key\", \"given\")\n")]},
+    {"id": "c20-b-counters-helper-and-local", "file": _L, "edits": [("        self.hparams = None\n        self._n_episodes = 0\n        self.n_steps = 0\n        self.stats_loc = {}\n        self.stats = {}\n\n    @property", "        self.hparams = None\n        self.reset_counters()\n        self.stats_loc = {}\n        self.stats = {}\n\n    def reset_counters(self):\n        self._n_episodes = self.n_steps = 0\n\n    @property"),
+                                                                   ("        return self._n_episodes\n\n    def start_new_episode(self):\n        \"\"\"Register start of new episode.\"\"\"\n        self._n_episodes += 1\n\n    def stop_episode(self, total_steps: int):\n        \"\"\"Register end of episode.\n\n        Increase step counter and records 'episode_length'.\n\n        Parameters\n        ----------\n        total_steps : int\n            Total number of steps in the episode that just terminated.\n        \"\"\"\n        self.n_steps += total_steps\n        self.record_stat(\"episode_length\", total_steps, verbose=0)\n\n    def define_experiment(\n        self,\n        env_name: str | None = None,\n        algorithm_name: str | None = None,\n        hparams: dict | None = None,\n    ):\n        \"\"\"Define the experiment.\n\n        Parameters\n        ----------\n        env_name : str, optional\n            The name of the gym environment.\n\n        algorithm_name : str, optional\n            The name of the reinforcement learning algorithm.\n\n        hparams : dict, optional\n            Hyperparameters of the experiment.\n        \"\"\"\n        self.env_name = env_name\n        self.algorithm_name = algorithm_name\n        self.start_time = time.time()\n        self.hparams = hparams\n",
+                                                                    "        return self._n_episodes\n\n    def start_new_episode(self):\n        \"\"\"Register start of new episode.\"\"\"\n        n = self._n_episodes + 1\n        self._n_episodes = n\n\n    def stop_episode(self, total_steps: int):\n        \"\"\"Register end of episode.\n\n        Increase step counter and records 'episode_length'.\n\n        Parameters\n        ----------\n        total_steps : int\n            Total number of steps in the episode that just terminated.\n        \"\"\"\n        steps = int(total_steps)\n        self.n_steps = self.n_steps + steps\n        self.record_stat(\"episode_length\", total_steps, verbose=0)\n\n    def define_experiment(\n        self,\n        env_name: str | None = None,\n        algorithm_name: str | None = None,\n        hparams: dict | None = None,\n    ):\n        \"\"\"Define the experiment.\n\n        Parameters\n        ----------\n        env_name : str, optional\n            The name of the gym environment.\n\n        algorithm_name : str, optional\n            The name of the reinforcement learning algorithm.\n\n        hparams : dict, optional\n            Hyperparameters of the experiment.\n        \"\"\"\n        self.env_name = env_name\n        self.algorithm_name = algorithm_name\n        self.start_time = time.time()\n        self.hparams = hparams\n")], "nth": 1},
+    {"id": "c20-b-counting-base-class", "file": _L, "edits": [("class StdoutLogger(LoggerBase):", "class _Counting(LoggerBase):\n    def start_new_episode(self):\n        self._n_episodes += 1\n\n    def stop_episode(self, total_steps: int):\n        self.n_steps += total_steps\n\n\nclass StdoutLogger(_Counting):"), ("        self.n_steps += total_steps\n\n    def define_experiment(", "        super().stop_episode(total_steps)\n\n    def define_experiment(")]},
+    {"id": "c20-b-save-keywords-aliases", "file": _L, "find": "        self.checkpointer.save(f\"{checkpoint_path}\", state)\n        self.checkpointer.wait_until_finished()\n        self.checkpoint_path[key].append(checkpoint_path)", "replace": "        cp = self.checkpointer\n        cp.wait_until_finished()\n        target = checkpoint_path\n        cp.save(directory=f\"{target}\", state=state)\n        cp.wait_until_finished()\n        listed = self.checkpoint_path[key]\n        listed.append(target)"},
+    {"id": "c20-b-orbax-wait-before-and-keywords", "file": _C, "edits": [("        self.checkpointer.save(path, state)\n", "        self.checkpointer.wait_until_finished()\n        self.checkpointer.save(path, state)\n"), ("        self.save_model(checkpoint_path, value)\n", "        self.save_model(model=value, path=checkpoint_path)\n")]},
+    {"id": "c20-b-orbax-guard-clause", "file": _C, "edits": [("        if key in self.checkpoint_frequencies:\n            # check if the step counter wrapped around as we cannot rely on\n            # x % y == 0 because of delayed updates (e.g., for the policy)\n            if (\n                self.last_step[key] % self.checkpoint_frequencies[key]\n                > step % self.checkpoint_frequencies[key]\n            ) or (\n                (step - self.last_step[key]) >= self.checkpoint_frequencies[key]\n            ):\n                self._save_checkpoint(key, value, step)\n\n        self.last_step[key] = step\n",
+                                                             "        if key not in self.checkpoint_frequencies:\n            self.last_step[key] = step\n            return\n        interval = self.checkpoint_frequencies[key]\n        last = self.last_step[key]\n        if not (last % interval <= step % interval and step - last < interval):\n            self._save_checkpoint(key, value, step)\n        print(\"previous step\", last)\n        last_steps = self.last_step\n        last_steps[key] = step\n"),
+                                                            ("        self.checkpoint_frequencies[key] = checkpoint_interval\n        self.checkpoint_path[key] = []\n        self.last_step[key] = 0\n", "        self.last_step[key], self.checkpoint_path[key] = 0, list()\n        self.checkpoint_frequencies[key] = int(checkpoint_interval)\n")]},
+    {"id": "c20-b-standard-swapped-test", "file": _L, "edits": [("        if (\n            key in self.checkpoint_frequencies\n            and self.epoch[key] % self.checkpoint_frequencies[key] == 0\n        ):\n            self._save_checkpoint(key, value)\n", "        if (\n            key not in self.checkpoint_frequencies\n            or self.epoch[key] % self.checkpoint_frequencies[key] != 0\n        ):\n            pass\n        else:\n            self._save_checkpoint(key=key, value=value)\n"),
+                                                                ("        if key not in self.epoch:\n            self.epoch_loc[key] = []\n            self.epoch[key] = 0\n            self.lpad_keys = max(self.lpad_keys, len(key))\n", "        if key not in self.epoch_loc:\n            self.epoch_loc[key] = []\n            self.epoch[key] = 0\n            self.lpad_keys = max(self.lpad_keys, len(key))\n"),
+                                                                ("        self.epoch[key] += 1\n        if self.verbose:", "        count = self.epoch[key] = self.epoch[key] + 1\n        assert count > 0\n        if self.verbose:")]},
 ]
